@@ -1,28 +1,42 @@
 """
 C06 — unpacking any image writes only inside the chosen unpack directory.
 
-Proof: lean/Sqfs/Props/C06.lean (confinement of `unpackTree` over the abstract POSIX file system of
-lean/Sqfs/Model/Unpack.lean, for all trees / flags / fill orders).
+Proof: lean/Sqfs/Props/C06.lean (confinement of `unpackTree` / `unpackMain` over the abstract POSIX file system of
+lean/Sqfs/Model/Unpack.lean, for all trees / flags / fill orders / unpack roots / failing calls).
 
-Tie: hostile images are forged (tools/sqfs_forge.py: arbitrary name bytes, order, repetition, symlink targets),
-the ASan+UBSan `rdsquashfs` built from the working tree unpacks them under `strace` inside a jail directory that
-surrounds R and holds decoys; the observed sequence of mutating system calls (name, path bytes, mode/owner/time
-arguments, result) is compared with `sqfsmodel c06 exec` on the same tree, the stderr skip reports with the model's
-skip events, the exit status with the model's status, the content of R with the model's final state; and the jail
-outside R is snapshotted before/after (type, mode, owner, size, mtime, content hash, link target, xattrs): the
-*specification* — nothing outside R may change — is evaluated directly on the implementation's behaviour.
-A second stream validates the trusted POSIX model itself: random system-call scripts are executed for real in a
-jail with symlinks and compared with `sqfsmodel c06 monitor`.
+Tie: hostile images are forged (tools/sqfs_forge.py: arbitrary name bytes, order, repetition, symlink targets, hard
+links, damaged data blocks and xattr records), the ASan+UBSan `rdsquashfs` built from the working tree unpacks them under
+`strace` inside a jail directory that surrounds R and holds decoys; the observed sequence of mutating system calls
+(name, path bytes, mode/owner/time arguments, result) is compared with `sqfsmodel c06 main` (= `unpackMain`: tree_sort,
+mkdir_p(R), chdir(R), the three walks, from the jail's real initial state) on the same tree, the stderr skip reports
+with the model's skip events, the exit status with the model's, the error message with the model's error kind, the
+content of R with the model's final state; and the jail outside R is snapshotted before/after (type, mode, owner, size,
+mtime, content hash, link target, xattrs): the *specification* — nothing outside R may change, except that `mkdir_p`
+may make new empty directories on the way to R — is evaluated directly on the implementation's behaviour.
+
+R is absent / an empty directory / a regular file / a dangling link / a link to a directory or to a file / a link loop
+/ a directory with content; `-p` is spelled in several ways (also through a file, a dangling link, a read-only or
+unsearchable directory) or not given; the tool is started in the jail or in an empty sentinel directory.  Part of the
+runs are made as an unprivileged user (`setpriv`, uid 65534): the calls the kernel then refuses (EPERM/EACCES) are
+predicted by a small table in this file and handed to the model as environment faults (`Faults`).  A third stream
+injects a failure (EEXIST, ENOTSUP, ENOSYS, EPERM, EACCES, ENOSPC, EINTR, …) into one occurrence of one system-call class
+through link-time wrappers (harness/h_c06_fault.c) and demands the same agreement.  The Lean monitor (`step/resolve` on
+the calls really made) judges every run.  A last stream validates the trusted POSIX model itself: random system-call
+scripts are executed for real in a jail with symlinks and compared with `sqfsmodel c06 monitor`.
 """
-import concurrent.futures, errno, hashlib, json, os, re, shutil, stat, subprocess
+import concurrent.futures, copy, errno, hashlib, json, os, re, shutil, stat, subprocess
 import vlib
-from sqfs_forge import Node, forge
+from sqfs_forge import Node, forge, has_xattr_table
 
 LEVEL = "proof"
 MODULE = "Sqfs.Props.C06"
 REQUIRED = ["Sqfs.C06.confinement", "Sqfs.C06.confinement_raw", "Sqfs.C06.plan_paths_clean", "Sqfs.C06.plan_prefix_dirs",
             "Sqfs.C06.resolve_stays_under_R", "Sqfs.C06.treeSort_names_distinct", "Sqfs.C06.below_R_only_tree_nodes",
-            "Sqfs.C06.skipped_reported_rest_unpacked", "Sqfs.C06.get_path_then_canonicalize_never_fails"]
+            "Sqfs.C06.skipped_reported_rest_unpacked", "Sqfs.C06.get_path_then_canonicalize_never_fails",
+            "Sqfs.C06.confinement_under_faults", "Sqfs.C06.main_confinement", "Sqfs.C06.root_not_established_nothing_unpacked",
+            "Sqfs.C06.failed_chdir_writes_nothing", "Sqfs.C06.failing_step_ends_run", "Sqfs.C06.failing_mkdir_p_ends_run",
+            "Sqfs.C06.success_means_everything_unpacked", "Sqfs.C06.exit_zero_of_all_fine", "Sqfs.C06.skip_reports_exact",
+            "Sqfs.C06.confinement_without_symlinks_below", "Sqfs.C06.main_confinement_weak", "Sqfs.C06.ordByLoc_is_a_fill_order"]
 TRACE = ("mkdir,mkdirat,symlink,symlinkat,mknod,mknodat,open,openat,creat,lsetxattr,setxattr,fsetxattr,utimensat,utimes,"
          "futimesat,utime,fchownat,chown,lchown,fchown,fchmodat,chmod,fchmod,chdir,fchdir,unlink,unlinkat,rename,renameat,"
          "renameat2,link,linkat,truncate,rmdir,removexattr,lremovexattr,chroot,mount")
@@ -30,6 +44,17 @@ ALLFLAGS = ["".join(c for c, b in zip("COXT", bits) if b) or "-" for bits in
             [[(i >> k) & 1 for k in range(4)] for i in range(16)]]
 WORKERS = max(1, int(os.environ.get("VERIF_JOBS", "6")))     # parallel rdsquashfs+strace runs
 CASE_TIMEOUT = 300          # seconds; an idle machine needs ~0.1 s per case
+NOBODY = 65534
+BLOCK = 4096                # block size of the forged images
+RSTATES = ["absent", "empty", "file", "dangling", "link_dir", "link_file", "loop", "populated"]
+WRAPPED = ["mkdir", "symlink", "mknod", "open", "open64", "utimensat", "fchownat", "fchmodat", "lsetxattr", "chdir"]
+FAULT_ERRNOS = ["EEXIST", "ENOTSUP", "ENOSYS", "EPERM", "EACCES", "ENOSPC", "EINTR", "EIO", "EROFS", "ENOENT", "ELOOP", "ENOMEM"]
+CLASS_OF = {"mkdir": "mkdir", "symlink": "symlink", "mknod": "mknod", "openx": "open", "opent": "open", "utimens": "utimensat",
+            "chown": "fchownat", "chmod": "fchmodat", "setxattr": "lsetxattr", "chdir": "chdir"}
+
+
+class Infra(vlib.CheckFailure):
+    """the check's own machinery did not do what it must (short answer, bad-op, nothing evaluated): never a pass"""
 
 
 def hx(b):
@@ -47,16 +72,22 @@ def cstr(b):
 
 # ---------------------------------------------------------------------------------------------- trees
 def node_from_tokens(toks):
-    """inverse of Node.tokens()"""
+    """inverse of Node.tokens() (10 fields, 12 with the damage fields, 13 with the data start forge() chose)"""
     def rec(i):
-        k, n, p, perm, uid, gid, mt, dev, xa, nch = toks[i].split(":")
+        f = toks[i].split(":")
+        if len(f) not in (10, 12, 13):
+            raise ValueError("node token with %d fields" % len(f))
+        k, n, p, perm, uid, gid, mt, dev, xa, nch = f[:10]
+        cf, xf = (f[10], f[11]) if len(f) >= 12 else ("-", "-")         # f[12]: where forge() put the data
         xattrs = [] if xa == "-" else [tuple(unhx(x) for x in kv.split("=")) for kv in xa.split(",")]
         i += 1
         ch = []
         for _ in range(int(nch)):
             c, i = rec(i)
             ch.append(c)
-        nd = Node(unhx(n), k, unhx(p), int(perm), int(uid), int(gid), int(mt), int(dev), xattrs, ch)
+        nd = Node(unhx(n), k, unhx(p), int(perm), int(uid), int(gid), int(mt), int(dev), xattrs, ch,
+                  copy_fail=None if cf == "-" else int(cf) // BLOCK,
+                  xattr_fail=None if xf == "-" else (("index",) if int(xf) == 0 else ("key", int(xf))))
         if k != "d" and ch:
             raise ValueError("children on a non-directory")
         return nd, i
@@ -72,8 +103,9 @@ NAMES_OK = [b"a", b"b", b"c", b"x", b"A", b"...", b"..a", b".a", b"a.", b"a..", 
 # no target leaves `outer` (two levels above R): a *mutated* tool run as root must not be able to touch the real system
 TARGETS = [b"../decoy_dir", b"../decoy_file", b"..", b".", b"ABS/..", b"ABS/decoy_dir", b"ABS/decoy_file", b"ABS", b"../..", b"x", b"a", b"b",
            b"", b"\0", b"../decoy_dir\0junk", b"b/..", b"../R/b", b"../decoy_link", b"../nonexistent", b"a/b/c", b"../decoy_dir/",
-           b"../decoy_dir/inner", b"./../decoy_dir", b"ABS//", b"loop", b"../outer_file"]
+           b"../decoy_dir/inner", b"./../decoy_dir", b"ABS//", b"loop", b"../outer_file", b"../start", b"../blocker"]
 XKEYS = [b"user.c06", b"trusted.c06", b"security.c06", b"user.a\0b", b"user.", b"trusted.overlay.opaque"]
+PAYLOADS = [b"", b"data", b"\0" * 5000, bytes(range(256)) * 20, b"z" * 4096, b"q" * 9000, b"\0" * 4096 + b"tail" * 2000]
 
 
 def rnd_attr(rng):
@@ -101,7 +133,8 @@ def rnd_name(rng, hostile):
     return rng.choice(NAMES_OK)
 
 
-def rnd_tree(rng, hostile=0.15, dup=0.1, depth=3, fan=5):
+def rnd_tree(rng, hostile=0.15, dup=0.1, depth=3, fan=5, damage=0.0, links=0.0):
+    """damage: probability per node of a data block / xattr record the reader refuses; links: of a hard link"""
     def kids(d):
         out = []
         for _ in range(rng.randint(0, fan)):
@@ -115,15 +148,28 @@ def rnd_tree(rng, hostile=0.15, dup=0.1, depth=3, fan=5):
                 nm = rnd_name(rng, hostile)
             k = rng.choice("ddddfffflllbcps")
             a = rnd_attr(rng)
+            if damage and rng.random() < damage:
+                xs = a.get("xattrs") or []
+                a["xattr_fail"] = ("key", rng.randrange(len(xs))) if xs and rng.random() < 0.6 else ("index",)
             if k == "d":
                 out.append(Node(nm, "d", children=kids(d - 1) if d > 0 else [], **a))
             elif k == "f":
-                out.append(Node(nm, "f", payload=rng.choice([b"", b"data", b"\0" * 5000, bytes(range(256)) * 20, b"z" * 4096]), **a))
+                files = [o for o in out if o.kind == "f" and o.link_of is None]
+                if links and files and rng.random() < links:
+                    o = rng.choice(files)
+                    out.append(Node(nm, "f", payload=o.payload, perm=o.perm, uid=o.uid, gid=o.gid, mtime=o.mtime, xattrs=o.xattrs,
+                                    copy_fail=o.copy_fail, xattr_fail=o.xattr_fail, link_of=o))
+                    continue
+                pl = rng.choice(PAYLOADS)
+                nblk = (len(pl) + BLOCK - 1) // BLOCK
+                cf = rng.randrange(nblk) if damage and nblk and rng.random() < damage * 1.5 else None
+                out.append(Node(nm, "f", payload=pl, copy_fail=cf, **a))
             elif k == "l":
                 out.append(Node(nm, "l", payload=rng.choice(TARGETS), **a))
             else:
                 out.append(Node(nm, k, devno=rng.choice([0x103, 0x105, 0, 0x801, 0xFFFFF, 0x12345678]), **a))
-        rng.shuffle(out)
+        if not links:
+            rng.shuffle(out)            # with hard links the first link has to come first in the listing
         return out
     a = rnd_attr(rng)
     return Node(b"", "d", children=kids(depth), **a)
@@ -173,9 +219,42 @@ def corpus_builtin():
     return out
 
 
+def small_trees():
+    """small shapes for the unpack-root, unprivileged and fault-injection streams"""
+    N = Node
+    out = []
+    out.append(("plain", N(b"", "d", children=[N(b"top.txt", "f", payload=b"top\n", perm=0o640, uid=1, gid=1, mtime=1234567890),
+                                               N(b"lnk", "l", payload=b"sub/file.txt", mtime=1234567890),
+                                               N(b"sub", "d", perm=0o750, mtime=5, children=[N(b"file.txt", "f", payload=b"hello\n", mtime=7)])])))
+    out.append(("links out", N(b"", "d", mtime=1, children=[N(b"zz_link", "l", payload=b"../decoy_file", uid=7, gid=7, mtime=1234567890,
+                                                                  xattrs=[(b"trusted.c06", b"v")]),
+                                                               N(b"dl", "l", payload=b"../decoy_dir", mtime=1234567890),
+                                                               N(b"al", "l", payload=b"ABS/decoy_file", mtime=99),
+                                                               N(b"sl", "l", payload=b"../start", mtime=99),
+                                                               N(b"dir", "d", children=[N(b"file", "f", payload=b"data\n", xattrs=[(b"user.c06", b"1")])])])))
+    out.append(("all kinds", N(b"", "d", children=[N(b"blk", "b", devno=0x801, perm=0o600), N(b"chr", "c", devno=0x103, perm=0o666, uid=2),
+                                                   N(b"fifo", "p", perm=0o640, mtime=3), N(b"sock", "s", perm=0o600),
+                                                   N(b"f", "f", payload=b"q" * 9000, perm=0o400, xattrs=[(b"user.c06", b"1"), (b"security.c06", b"3")]),
+                                                   N(b"d", "d", perm=0o700, children=[N(b"l", "l", payload=b"../../decoy_file"), N(b"g", "f", perm=0)])])))
+    out.append(("skips and content", N(b"", "d", children=[N(b"..", "d", children=[N(b"pwn", "f", payload=b"pwned")]), N(b"a/b", "f"),
+                                                           N(b"ok", "d", children=[N(b".", "f"), N(b"z", "f", payload=b"z")])])))
+    out.append(("damaged block", N(b"", "d", children=[N(b"a", "f", payload=b"A" * 10000, copy_fail=1), N(b"b", "f", payload=b"hello"),
+                                                       N(b"c", "l", payload=b"../decoy_file", uid=3)])))
+    out.append(("damaged first block", N(b"", "d", children=[N(b"a", "f", payload=b"A" * 100, copy_fail=0), N(b"b", "f", payload=b"hello")])))
+    out.append(("damaged xattr key", N(b"", "d", children=[N(b"a", "f", payload=b"x", xattrs=[(b"user.a", b"1"), (b"user.b", b"2")], xattr_fail=("key", 1)),
+                                                           N(b"b", "f", payload=b"hello", uid=9), N(b"c", "f", xattrs=[(b"user.c", b"3")])])))
+    out.append(("xattr index out of range", N(b"", "d", children=[N(b"a", "f", payload=b"x", xattrs=[(b"user.a", b"1")]),
+                                                                  N(b"b", "l", payload=b"../decoy_file", xattr_fail=("index",)), N(b"c", "f")])))
+    out.append(("xattr index without a table", N(b"", "d", children=[N(b"a", "f", payload=b"x", xattr_fail=("index",), mtime=4)])))
+    o = N(b"o", "f", payload=b"orig" * 2000, perm=0o600, uid=4)
+    out.append(("hard links", N(b"", "d", children=[o, N(b"l1", "f", payload=o.payload, perm=0o600, uid=4, link_of=o),
+                                                    N(b"d", "d", children=[N(b"l2", "f", payload=o.payload, perm=0o600, uid=4, link_of=o)])])))
+    return out
+
+
 # ---------------------------------------------------------------------------------------------- jail
-def make_jail(base, precreate):
-    """base/outer/jail/{decoys, R}"""
+def make_jail(base, rstate):
+    """base/outer/jail/{decoys, start/, R}; the state of R before the run is `rstate`"""
     outer = base / "outer"
     jail = outer / "jail"
     os.makedirs(jail / "decoy_dir" / "sub")
@@ -183,22 +262,84 @@ def make_jail(base, precreate):
     (jail / "decoy_file").write_bytes(b"decoy\n")
     (jail / "decoy_dir" / "inner").write_bytes(b"inner\n")
     (jail / "x").write_bytes(b"x\n")
+    (jail / "blocker").write_bytes(b"i am a file\n")
     os.symlink("decoy_dir", jail / "decoy_link")
     os.symlink("loop", jail / "loop")
+    os.symlink("nonexistent_target", jail / "dangling")
+    os.mkdir(jail / "start")                         # sentinel: must stay empty
+    os.mkdir(jail / "ro")
+    os.mkdir(jail / "noexec")
+    R = jail / "R"
+    if rstate == "empty":
+        os.mkdir(R)
+    elif rstate == "file":
+        R.write_bytes(b"R is a file\n")
+    elif rstate == "dangling":
+        os.symlink("nowhere", R)
+    elif rstate == "link_dir":
+        os.mkdir(jail / "Rtarget")
+        os.symlink("Rtarget", R)
+    elif rstate == "link_file":
+        os.symlink("decoy_file", R)
+    elif rstate == "loop":
+        os.symlink("R", R)
+    elif rstate == "populated":
+        os.makedirs(R / "pd")
+        (R / "keep").write_bytes(b"keep\n")
+        (R / "pd" / "inner").write_bytes(b"inner\n")
+        os.mkdir(R / "a")
+        (R / "b").write_bytes(b"was here\n")
+    elif rstate != "absent":
+        raise ValueError(rstate)
     os.chmod(jail / "decoy_file", 0o640)
     os.chmod(jail / "decoy_dir", 0o750)
-    for p in (jail / "decoy_file", jail / "decoy_dir", jail / "x", outer / "outer_file", jail / "decoy_dir" / "inner", jail, outer):
+    for p in (jail / "decoy_file", jail / "decoy_dir", jail / "x", outer / "outer_file", jail / "decoy_dir" / "inner", jail / "start",
+              jail / "blocker", jail, outer):
         os.utime(p, ns=(10**18, 10**18))
-    if precreate:
-        os.mkdir(jail / "R")
     return outer, jail
+
+
+def chown_tree(top, uid):
+    for d, dn, fn in os.walk(top):
+        os.lchown(d, uid, uid)
+        for x in dn + fn:
+            os.lchown(os.path.join(d, x), uid, uid)
+
+
+def key_of(path_bytes):
+    comps = [c for c in path_bytes.split(b"/") if c]
+    return "/" + "/".join(c.hex() for c in comps) if comps else "/"
+
+
+def fs_entries(outer):
+    """the file system as the model's FSENT tokens: every ancestor of `outer` as a directory, everything below it"""
+    ob = os.fsencode(outer)
+    ents, p = ["/:d"], b""
+    for c in [c for c in ob.split(b"/") if c][:-1]:
+        p += b"/" + c
+        ents.append(key_of(p) + ":d")
+    stack = [ob]
+    while stack:
+        q = stack.pop()
+        st = os.lstat(q)
+        if stat.S_ISDIR(st.st_mode):
+            ents.append(key_of(q) + ":d")
+            for x in sorted(os.listdir(q)):
+                stack.append(q + b"/" + x)
+        elif stat.S_ISLNK(st.st_mode):
+            ents.append(key_of(q) + ":l:" + hx(os.readlink(q)))
+        elif stat.S_ISREG(st.st_mode):
+            ents.append(key_of(q) + ":f")
+        else:
+            ents.append(key_of(q) + ":s")
+    return ents
 
 
 def lstat_rec(p):
     st = os.lstat(p)
     rec = {"mode": st.st_mode, "uid": st.st_uid, "gid": st.st_gid}
     if stat.S_ISLNK(st.st_mode):
-        rec["target"] = os.readlink(p).hex() if isinstance(p, bytes) else os.readlink(bytes(p)).hex()
+        rec["target"] = os.readlink(os.fsencode(p)).hex()
     elif stat.S_ISREG(st.st_mode):
         with open(p, "rb") as f:
             rec["sha"] = hashlib.sha256(f.read()).hexdigest()
@@ -212,35 +353,64 @@ def lstat_rec(p):
     return rec, st
 
 
-def snapshot(outer, R, parent_mtime=False):
-    """everything under `outer` except what lies strictly below R; R itself without its mtime/size"""
+def snapshot(outer, root):
+    """path (bytes, absolute) -> record, for everything under `outer` that is not strictly below `root` (bytes or None);
+    `root` itself is recorded without its mtime and entries"""
     snap = {}
-    ob, Rb = os.fsencode(outer), os.fsencode(R)
-    Rparent = os.path.dirname(Rb)
-    stack = [ob]
+    stack = [os.fsencode(outer)]
     while stack:
         p = stack.pop()
         rec, st = lstat_rec(p)
-        if p == Rb:
-            continue                    # R itself: compared separately (it may be created by the run: mkdir_p)
-        if p != Rparent or parent_mtime:
-            rec["mtime"] = st.st_mtime_ns      # creating R changes its parent's mtime
+        if p == root:
+            snap[p] = rec
+            continue
+        rec["mtime"] = st.st_mtime_ns
         if stat.S_ISDIR(st.st_mode):
-            rec["entries"] = sorted(x.hex() for x in os.listdir(p) if p + b"/" + x != Rb)
-        snap[p[len(ob):].hex()] = rec
-        if stat.S_ISDIR(st.st_mode) and p != Rb:
-            for x in os.listdir(p):
+            names = os.listdir(p)
+            rec["entries"] = sorted(x.hex() for x in names)
+            for x in names:
                 stack.append(p + b"/" + x)
+        snap[p] = rec
     return snap
+
+
+def diff_snap(before, after, root, allowed_new, runner):
+    """What changed outside the unpack root.  Specification: nothing — except that `mkdir_p` may have made new, empty
+    directories (mode 0755, owned by the runner) at the prefixes of the `-p` argument (`allowed_new`), which shows in their
+    parents' entry lists and mtimes."""
+    b = {k: dict(v) for k, v in before.items()}
+    a = {k: dict(v) for k, v in after.items()}
+    ch = []
+    new = sorted({p for p in allowed_new if p not in b and p in a})
+    for p in new:
+        rec = a[p]
+        ok = stat.S_ISDIR(rec["mode"]) and stat.S_IMODE(rec["mode"]) == 0o755 and rec["uid"] == runner and rec["xattrs"] in ([], "?")
+        if p != root:
+            kids = {p + b"/" + bytes.fromhex(x) for x in rec.get("entries", [])}
+            ok = ok and kids <= set(new)
+        if not ok:
+            ch.append({"path": p.decode("latin-1"), "before": None, "after": rec,
+                       "why": "a directory made on the way to R is not a new, empty 0755 directory of the runner"})
+    for p in new:
+        del a[p]
+        par = os.path.dirname(p)
+        for snap in (b, a):
+            if par in snap:
+                snap[par].pop("mtime", None)
+        if par in a and "entries" in a[par]:
+            a[par]["entries"] = [x for x in a[par]["entries"] if x != p[len(par) + 1:].hex()]
+    for k in sorted(set(b) | set(a)):
+        if b.get(k) != a.get(k):
+            ch.append({"path": k.decode("latin-1"), "before": b.get(k), "after": a.get(k)})
+    return ch
 
 
 def tree_state(R):
     """what is below R after the run: relative path bytes -> record"""
     out = {}
-    Rb = os.fsencode(R)
-    if not os.path.isdir(Rb):
+    if R is None or not os.path.isdir(R):
         return out
-    stack = [Rb]
+    stack = [R]
     while stack:
         p = stack.pop()
         for x in os.listdir(p):
@@ -250,7 +420,7 @@ def tree_state(R):
             if stat.S_ISREG(st.st_mode):
                 with open(q, "rb") as f:
                     rec["content"] = f.read()
-            out[q[len(Rb) + 1:]] = rec
+            out[q] = rec
             if stat.S_ISDIR(st.st_mode):
                 stack.append(q)
     return out
@@ -359,169 +529,229 @@ def parse_strace(text):
 
 # ---------------------------------------------------------------------------------------------- one case
 def abs_subst(node, absb):
-    """replace the ABS placeholder in names/targets by the jail's absolute path"""
-    n = Node(node.name.replace(b"ABS", absb), node.kind, node.payload.replace(b"ABS", absb) if node.kind == "l" else node.payload,
-             node.perm, node.uid, node.gid, node.mtime, node.devno, node.xattrs, [abs_subst(c, absb) for c in node.children])
-    return n
+    """replace the ABS placeholder in names/targets by the jail's absolute path (on a copy; hard-link references survive)"""
+    t = copy.deepcopy(node)
+
+    def rec(n):
+        n.name = n.name.replace(b"ABS", absb)
+        if n.kind == "l":
+            n.payload = n.payload.replace(b"ABS", absb)
+        for c in n.children:
+            rec(c)
+    rec(t)
+    return t
 
 
-def strip_data(tok):
-    return ":".join(tok.split(":")[:2]) if tok.startswith("opent:") else tok
+def has_links(n):
+    return n.link_of is not None or any(has_links(c) for c in n.children)
 
 
-def split_model_exec(line):
-    """→ (status, [(token,res)], {keytok: nodetok})"""
-    head, _, tail = line.partition(" |")
-    w = head.split()
-    status, tr = w[0], []
-    for t in w[1:]:
-        tok, _, res = t.rpartition("=")
-        tr.append((tok, res))
-    st = {}
-    for t in tail.split():
-        k, _, v = t.partition("@")
-        st[k] = v
-    return status, tr, st
+def mk_case(label, tree, flags="-", upath=b"/", rstate="absent", rstr=b"R", start="jail", priv="root", fault=None):
+    return {"label": label, "tree": tree, "flags": flags, "upath": upath, "rstate": rstate, "rstr": rstr, "start": start,
+            "priv": priv, "fault": fault}
 
 
-def phase_split(seq):
-    """(create, fill (sorted), attrs) of a token sequence"""
-    i = 0
-    while i < len(seq) and not seq[i][0].startswith("opent:"):
+def prefixes_of(rstr):
+    """the strings at the '/' boundaries of the `-p` argument (this file's own reading of mkdir_p, not the model's)"""
+    out, i = [], 1
+    while i <= len(rstr):
+        if i == len(rstr) or rstr[i:i + 1] == b"/":
+            out.append(rstr[:i])
         i += 1
-    j = i
-    while j < len(seq) and seq[j][0].startswith("opent:"):
-        j += 1
-    return seq[:i], sorted(seq[i:j]), seq[j:]
+    return out
 
 
 SKIP_RE = re.compile(rb"Found an entry named '(.*?)', skipping\.\n", re.S)
+ERRNO_NUM = {n: v for v, n in errno.errorcode.items()}
+ERRNO_NUM["ENOTSUP"] = errno.ENOTSUP
 
 
-def run_case(ctx, rd, idx, label, tree, flags, upath, precreate, timeout=CASE_TIMEOUT):
+def run_case(ctx, rd, idx, case, timeout=CASE_TIMEOUT):
     """returns dict(result record).  Does not touch ctx (thread-safe)."""
     base = ctx.scratch / ("case%d" % idx)
     if base.exists():
         shutil.rmtree(base)
     base.mkdir()
     try:
-        outer, jail = make_jail(base, precreate)
+        outer, jail = make_jail(base, case["rstate"])
         absb = os.fsencode(jail)
-        template = tree.tokens()
-        tree = abs_subst(tree, absb)
+        template = case["tree"].tokens()
+        tree = abs_subst(case["tree"], absb)
         img = base / "img.sqfs"
-        img.write_bytes(forge(tree))
-        R = jail / "R"
-        before = snapshot(outer, R)
-        R_before = lstat_rec(R)[0] if precreate else None
-        fl = [] if flags == "-" else ["-" + c for c in flags]
-        cmd = ["strace", "-f", "-xx", "-s", "70000", "-o", str(base / "st.log"), "-e", "trace=" + TRACE,
-               str(rd), "-q", "-u", os.fsdecode(upath), "-p", "R"] + fl + [str(img)]
+        img.write_bytes(forge(tree, block_size=BLOCK))
+        rstr = None if case["rstr"] is None else case["rstr"].replace(b"ABS", absb)
+        if rstr is None:
+            cwd = absb + b"/R"
+        else:
+            cwd = absb + (b"/start" if case["start"] == "start" else b"")
+        runner = NOBODY if case["priv"] == "nobody" else 0
+        if runner:
+            chown_tree(base, runner)
+        os.chmod(jail / "ro", 0o555)
+        os.chmod(jail / "noexec", 0o600)
+        # where the unpack root is, if it can be established (symbolic links that exist now are followed)
+        if rstr is None:
+            root, allowed_new = os.path.realpath(cwd), []
+        elif rstr == b"":
+            root, allowed_new = None, []
+        else:
+            root = os.path.realpath(os.path.join(cwd, rstr))
+            allowed_new = [os.path.realpath(os.path.join(cwd, p)) for p in prefixes_of(rstr)]
+        fsents = fs_entries(outer)
+        before = snapshot(outer, root)
+        perm = {}
+        if runner and rstr is not None:
+            # what uid 65534 may not do on the way to R (read off the mode bits now; the jail is gone when the model is asked)
+            for p in prefixes_of(rstr):
+                perm["mkdir:" + hx(p)] = lookup_perm(cwd, p, True)
+            e = lookup_perm(cwd, rstr, False)
+            if e is None:
+                try:
+                    st = os.stat(os.path.join(cwd, rstr))
+                    if stat.S_ISDIR(st.st_mode) and not nobody_can(st, 1):
+                        e = "EACCES"
+                except OSError:
+                    pass
+            perm["chdir"] = e
+        fl = [] if case["flags"] == "-" else ["-" + c for c in case["flags"]]
+        cmd = []
+        if runner:
+            cmd += ["setpriv", "--reuid=%d" % runner, "--regid=%d" % runner, "--clear-groups"]
+        cmd += ["strace", "-f", "-xx", "-s", "70000", "-o", str(base / "st.log"), "-e", "trace=" + TRACE,
+                str(rd), "-q", "-u", os.fsdecode(case["upath"])]
+        if rstr is not None:
+            cmd += ["-p", os.fsdecode(rstr)]
+        cmd += fl + [str(img)]
+        env = ctx.san_env()
+        flog = base / "fault.log"
+        if case["fault"] is not None:
+            cls, k, en = case["fault"]
+            env["C06_FAULT"] = "%s:%d:%d" % (cls, k, ERRNO_NUM[en])
+            env["C06_FAULT_LOG"] = str(flog)
         try:
-            r = subprocess.run(cmd, cwd=str(jail), env=ctx.san_env(), stdout=subprocess.PIPE, stderr=subprocess.PIPE, timeout=timeout)
+            r = subprocess.run(cmd, cwd=os.fsdecode(cwd), env=env, stdout=subprocess.PIPE, stderr=subprocess.PIPE, timeout=timeout)
             rc, err = r.returncode, r.stderr
         except subprocess.TimeoutExpired:
             rc, err = "timeout", b""
-        after = snapshot(outer, R)
-        if precreate:
-            R_after = lstat_rec(R)[0] if os.path.lexists(R) else None
-            if R_after != R_before:
-                after["<R itself>"] = R_after
-        elif os.path.lexists(R) and (not os.path.isdir(R) or os.path.islink(R)):
-            after["<R itself>"] = "not a directory"
+        os.chmod(jail / "ro", 0o755)
+        os.chmod(jail / "noexec", 0o755)
+        after = snapshot(outer, root)
+        for snap in (before, after):                     # the two modes this function itself toggles
+            for nm in (b"ro", b"noexec"):
+                if absb + b"/" + nm in snap:
+                    snap[absb + b"/" + nm]["mode"] = "toggled"
         log = (base / "st.log").read_text(errors="replace") if (base / "st.log").exists() else ""
-        calls = parse_strace(log)
-        state = tree_state(R)
-        rec = {"idx": idx, "label": label, "flags": flags, "upath": upath.hex(), "precreate": precreate, "tokens": tree.tokens(), "template": template, "jail": os.fsdecode(absb),
-               "rc": rc, "stderr": err[-3000:].decode("latin-1"), "calls": calls, "changed": diff_snap(before, after),
-               "skips": [m.hex() for m in SKIP_RE.findall(err)], "state": state, "R_exists": os.path.isdir(R)}
+        calls = [c for c in parse_strace(log) if not c[0].startswith("open?:" + os.fsencode(flog).hex())]     # the wrappers' own log
+        fired = None
+        if case["fault"] is not None and flog.exists():
+            for line in flog.read_text().splitlines():
+                w = line.split()
+                if w and w[0] == "fired":
+                    fired = w[1:]
+        rec = {"idx": idx, "label": case["label"], "flags": case["flags"], "upath": case["upath"].hex(), "rstate": case["rstate"],
+               "rstr": None if case["rstr"] is None else case["rstr"].hex(), "rstr_real": None if rstr is None else rstr.hex(),
+               "start": case["start"], "priv": case["priv"], "fault": case["fault"], "fired": fired,
+               "tokens": tree.tokens(), "template": template, "xattr_table": has_xattr_table(tree), "has_links": has_links(tree),
+               "jail": os.fsdecode(absb), "cwd": os.fsdecode(cwd), "root": None if root is None else os.fsdecode(root),
+               "perm": perm, "fsents": fsents, "new_dirs": [os.fsdecode(p) for p in allowed_new if p not in before and p in after],
+               "rc": rc, "stderr": err[-3000:].decode("latin-1"), "calls": calls,
+               "changed": diff_snap(before, after, root, allowed_new, runner),
+               "skips": [m.hex() for m in SKIP_RE.findall(err)], "state": tree_state(root),
+               "strace_lines": log.count("\n")}
         return rec
     finally:
+        subprocess.run(["chmod", "-R", "u+rwx", str(base)], stdout=subprocess.DEVNULL, stderr=subprocess.DEVNULL)
         shutil.rmtree(base, ignore_errors=True)
 
 
-def diff_snap(a, b):
-    ch = []
-    for k in sorted(set(a) | set(b)):
-        if a.get(k) != b.get(k):
-            ch.append({"path": bytes.fromhex(k).decode("latin-1") if not k.startswith("<") else k, "before": a.get(k), "after": b.get(k)})
-    return ch
+# ---------------------------------------------------------------------------------------------- model side
+def model_flags(rec):
+    f = "" if rec["flags"] == "-" else rec["flags"]
+    if not rec["xattr_table"]:
+        f += "n"                                   # SQFS_FLAG_NO_XATTRS: `xattr == NULL` in main
+    return f or "-"
 
 
-def monitor_request(rec):
-    """the model's POSIX semantics (and its confinement verdict) applied to the calls the tool really made after chdir(R)"""
-    seen, scs, res = False, [], []
-    for tok, r in rec["calls"]:
-        if not seen:
-            seen = tok == "chdir:52" and r == "0"
-            continue
-        if tok.startswith(("open?", "other", "truncated", "unparsed")) or "~" in tok:
-            return None, None
-        scs.append(tok + ":-" if tok.startswith("opent:") else tok)
-        res.append(r)
-    if not scs:
-        return None, None
-    comps = [os.fsencode(c) for c in rec["jail"].split("/")[1:]]
-    ents, p = ["/:d"], []
-    for c in comps:
-        p.append(c)
-        ents.append("/" + "/".join(x.hex() for x in p) + ":d")
-    jp = "/" + "/".join(x.hex() for x in comps)
-    op = "/" + "/".join(x.hex() for x in comps[:-1])
-    def e(base, name, kind):
-        return base + "/" + name.hex() + ":" + kind
-    ents += [e(jp, b"decoy_dir", "d"), e(jp + "/" + b"decoy_dir".hex(), b"sub", "d"), e(jp + "/" + b"decoy_dir".hex(), b"inner", "f"),
-             e(jp, b"decoy_file", "f"), e(jp, b"x", "f"), e(jp, b"decoy_link", "l:" + b"decoy_dir".hex()), e(jp, b"loop", "l:" + b"loop".hex()),
-             e(op, b"outer_file", "f"), e(jp, b"R", "d")]
-    return "monitor %s %d %s %s" % (jp + "/52", len(ents), " ".join(ents), " ".join(scs)), res
+def plan_request(rec):
+    return "plan %s %s %s" % (model_flags(rec), rec["upath"] or "-", " ".join(rec["tokens"]))
 
 
-def model_request(rec, op="exec"):
-    return "%s %s %s %s" % (op, rec["flags"], rec["upath"] or "-", " ".join(rec["tokens"]))
+def main_request(rec, faults=()):
+    root = "~" if rec["rstr_real"] is None else (rec["rstr_real"] or "-")
+    fl = ["%d=%s" % (i, e) for i, e in faults]
+    return "main %s %s %s %s %d %s %d %s %s" % (model_flags(rec), rec["upath"] or "-", root, key_of(os.fsencode(rec["cwd"])),
+                                               len(rec["fsents"]), " ".join(rec["fsents"]), len(fl), " ".join(fl), " ".join(rec["tokens"]))
 
 
-KINDCH = {"d": stat.S_IFDIR, "f": stat.S_IFREG, "l": stat.S_IFLNK}
+def drive(ctx, lines, what):
+    """run the model driver; one answer per request, none of them `bad-op` — anything else is a failure of the check itself"""
+    if not lines:
+        return []
+    out = ctx.driver(["c06"], "\n".join(lines) + "\n", timeout=3000)
+    if len(out) != len(lines):
+        raise Infra("model driver answered %d lines to %d %s requests" % (len(out), len(lines), what))
+    for q, a in zip(lines, out):
+        if a.strip() == "bad-op" or not a.strip():
+            raise Infra("model driver refused a %s request: %r -> %r" % (what, q[:300], a))
+    return out
 
 
-def compare(rec, mline):
-    """→ list of disagreement strings between the implementation's run and the model's answer"""
-    bad = []
-    calls = rec["calls"]
-    # split at chdir(R)
-    pre, post, seen = [], [], False
-    for tok, res in calls:
-        if not seen and tok.startswith("chdir:"):
-            seen = (res == "0" and tok == "chdir:52")
-            if not seen:
-                pre.append((tok, res))
-            continue
-        (post if seen else pre).append((tok, res))
-    if mline in ("invalid-path", "lookup:noEntry", "lookup:notDir") or mline.startswith("err:duplicate"):
-        # the tool stops before mkdir_p(R)
-        if pre or post:
-            bad.append("model says the tool stops before touching the file system (%s) but calls were made: %s" % (mline.split()[0], (pre + post)[:4]))
-        if rec["rc"] != 1:
-            bad.append("exit status %s, expected 1 (%s)" % (rec["rc"], mline.split()[0]))
-        return bad
-    status, mtr, mstate = split_model_exec(mline)
-    exp_pre = [("mkdir:52:493", "EEXIST" if rec["precreate"] else "0")]
-    if pre != exp_pre:
-        bad.append("calls before chdir(R): %s, expected %s" % (pre[:5], exp_pre))
-    if not seen:
-        bad.append("no chdir(R)")
-    ic, ifl, ia = phase_split(post)
-    mc, mfl, ma = phase_split([(norm_tok(strip_data(t)), r) for t, r in mtr])
-    if ic != mc:
-        bad.append("create phase differs: impl %s model %s" % first_diff(ic, mc))
-    if ifl != mfl:
-        bad.append("fill phase differs (as multisets): impl %s model %s" % first_diff(ifl, mfl))
-    if ia != ma:
-        bad.append("attribute phase differs: impl %s model %s" % first_diff(ia, ma))
-    failed = any(r != "0" and not (t.startswith("mkdir:") and r == "EEXIST") for t, r in mtr)
-    exp_rc = 0 if (status == "ok" and not failed) else 1
-    if rec["rc"] != exp_rc:
-        bad.append("exit status %s, model expects %d (%s)" % (rec["rc"], exp_rc, status))
-    return bad
+def strip_data(tok):
+    return ":".join(tok.split(":")[:2]) if tok.startswith("opent:") else tok
+
+
+def parse_main(line):
+    """→ dict; `special` for the answers without a run (invalid-path, lookup:…)"""
+    if not line.startswith("exit:"):
+        return {"special": line.strip()}
+    head, sep, tail = line.partition(" |")
+    if not sep:
+        raise Infra("malformed main answer: %r" % line[:200])
+    w = head.split()
+    d = {"exit": int(w[0][5:]), "est": w[1] == "est:1", "status": w[2][7:], "chdir": w[3][6:], "cwd": w[4][4:]}
+    npre = int(w[5][4:])
+    pre = w[6:6 + npre]
+    ntr = int(w[6 + npre][3:])
+    tr = w[7 + npre:7 + npre + ntr]
+    if len(pre) != npre or len(tr) != ntr or len(w) != 7 + npre + ntr:
+        raise Infra("main answer with inconsistent counts: %r" % head[:300])
+
+    def sp(t):
+        tok, _, res = t.rpartition("=")
+        return (tok, res)
+    d["pre"], d["tr"] = [sp(t) for t in pre], [sp(t) for t in tr]
+    st = {}
+    for t in tail.split():
+        k, _, v = t.partition("@")
+        st[k] = v
+    d["state"] = st
+    return d
+
+
+def model_seq(m):
+    """the model's calls in global order with their fault index: mkdir_p's, chdir, the walks'"""
+    seq = [("pre", j, t, r) for j, (t, r) in enumerate(m["pre"])]
+    n = len(seq)
+    if m["chdir"] != "-":
+        seq.append(("chdir", n, "chdir", m["chdir"]))
+        n += 1
+    seq += [("tr", n + j, t, r) for j, (t, r) in enumerate(m["tr"])]
+    return seq
+
+
+def fine(tok, res):
+    return res == "0" or (tok.startswith("mkdir:") and res == "EEXIST")
+
+
+def phase_split(seq, in_order):
+    """(create, fill, attrs) of a token sequence; the fill phase sorted unless its order is defined"""
+    i = 0
+    while i < len(seq) and not seq[i][0].startswith("opent:"):
+        i += 1
+    j = i
+    while j < len(seq) and seq[j][0].startswith("opent:"):
+        j += 1
+    return seq[:i], (seq[i:j] if in_order else sorted(seq[i:j])), seq[j:]
 
 
 def first_diff(a, b):
@@ -532,14 +762,106 @@ def first_diff(a, b):
     return ("#%d %s" % (n, a[n] if n < len(a) else "<end>"), "#%d %s" % (n, b[n] if n < len(b) else "<end>"))
 
 
-def compare_skips(rec, plan_line):
-    if not plan_line.startswith(("ok", "err:")):
+STATUS_MSG = {"corrupted@create": "constructing full path: data corrupted.", "argInvalid@create": "constructing full path: invalid argument.",
+              "corrupted@fill": "assembling file path: data corrupted.", "argInvalid@fill": "assembling file path: invalid argument.",
+              "corrupted@attr": "reconstructing full path: data corrupted.", "argInvalid@attr": "reconstructing full path: invalid argument.",
+              "dataRead@fill": ": unpacking: ", "duplicate": "found more than once!"}
+XATTR_MSGS = ["Error resolving xattr index", "Error locating xattr key-value pairs", "Error reading xattr key", "Error reading xattr value"]
+
+
+def split_calls(rec):
+    """(calls before chdir, the chdir (tok,res) or None, calls after) of the implementation's run"""
+    if rec["rstr_real"] is None:
+        return [], None, list(rec["calls"])
+    pre, post, chd = [], [], None
+    for tok, res in rec["calls"]:
+        if chd is None and tok.startswith("chdir:"):
+            chd = (tok, res)
+            continue
+        (post if chd is not None else pre).append((tok, res))
+    return pre, chd, post
+
+
+def compare(rec, m):
+    """→ list of disagreement strings between the implementation's run and the model's answer"""
+    bad = []
+    pre, chd, post = split_calls(rec)
+    if "special" in m:
+        # `-u` cannot be resolved: the tool stops before tree_sort, nothing is called
+        if m["special"] not in ("invalid-path", "lookup:noEntry", "lookup:notDir"):
+            raise Infra("unexpected model answer %r" % m["special"])
+        if rec["calls"]:
+            bad.append("model says the tool stops before touching the file system (%s) but calls were made: %s" % (m["special"], rec["calls"][:4]))
+        if rec["rc"] != 1:
+            bad.append("exit status %s, expected 1 (%s)" % (rec["rc"], m["special"]))
+        return bad
+    mpre, mtr, mchd = list(m["pre"]), list(m["tr"]), m["chdir"]
+    # an injected fault never reaches the kernel: strace does not show that call
+    if rec["fault"] is not None:
+        inj = rec.get("inject")
+        if inj is None:
+            raise Infra("fault case without injection index")
+        where, j = inj
+        if rec["fired"] is None:
+            bad.append("the injected fault (%s) never fired: the tool made fewer calls of that class than the model" % (rec["fault"],))
+        else:
+            want = {"pre": lambda: mpre[j][0], "chdir": lambda: "chdir:" + (rec["rstr_real"] or "-"), "tr": lambda: mtr[j][0]}[where]()
+            got_path = rec["fired"][3]
+            if want.split(":")[1 if not want.startswith("symlink:") else 2] != got_path:
+                bad.append("the injected fault hit the call on path %s, the model's call at that position is %s" % (got_path, want))
+        if where == "pre":
+            del mpre[j]
+        elif where == "tr":
+            del mtr[j]
+        else:
+            mchd = "-"
+    exp_pre = [(norm_tok(t), r) for t, r in mpre]
+    if pre != exp_pre:
+        bad.append("calls before chdir(R) (mkdir_p): impl %s model %s" % first_diff(pre, exp_pre))
+    if mchd == "-":
+        if chd is not None:
+            bad.append("chdir %s although the model says it is never reached" % (chd,))
+    else:
+        want = ("chdir:" + (rec["rstr_real"] or "-"), mchd)
+        if chd != want:
+            bad.append("chdir: impl %s model %s" % (chd, want))
+    # fill order = qsort(compare_files) = by data start; hard links share a start, qsort may order them either way
+    in_order = not rec["has_links"]
+    ic, ifl, ia = phase_split(post, in_order)
+    mc, mfl, ma = phase_split([(norm_tok(strip_data(t)), r) for t, r in mtr], in_order)
+    if ic != mc:
+        bad.append("create phase differs: impl %s model %s" % first_diff(ic, mc))
+    if ifl != mfl:
+        bad.append("fill phase differs (%s): impl %s model %s" % (("in order" if in_order else "as multisets",) + first_diff(ifl, mfl)))
+    if ia != ma:
+        bad.append("attribute phase differs: impl %s model %s" % first_diff(ia, ma))
+    if rec["rc"] != m["exit"]:
+        bad.append("exit status %s, model %d (%s)" % (rec["rc"], m["exit"], m["status"]))
+    # the plan's own error is the reason of the failure only if every call was fine
+    if m["est"] and all(fine(t, r) for t, r in m["tr"]) and m["status"].startswith("err:"):
+        kind = m["status"][4:]
+        if kind == "xattrRead@attr":
+            if not any(x in rec["stderr"] for x in XATTR_MSGS):
+                bad.append("model: xattr reader failure, stderr has none of its messages: %r" % rec["stderr"][-200:])
+        elif kind not in STATUS_MSG:
+            raise Infra("no message known for model status %r" % m["status"])
+        elif STATUS_MSG[kind] not in rec["stderr"]:
+            bad.append("model: %s, stderr lacks %r: %r" % (m["status"], STATUS_MSG[kind], rec["stderr"][-200:]))
+    if m["status"] == "err:duplicate" and STATUS_MSG["duplicate"] not in rec["stderr"]:
+        bad.append("model: duplicate entry, stderr lacks the message: %r" % rec["stderr"][-200:])
+    return bad
+
+
+def compare_skips(rec, m, plan_line):
+    if "special" in m or not plan_line.startswith(("ok", "err:")):
         return []
     mskips = [t[5:] for t in plan_line.split()[1:] if t.startswith("skip:")]
     # the model's plan lists skip events of a phase that is not reached after a failing system call; the implementation
     # prints a prefix of them
     mine = [("" if s == "-" else s) for s in mskips]
     got = rec["skips"]
+    if not m["est"]:
+        return ["skip reports %s although the walks are not reached" % got[:4]] if got else []
     if got != mine[:len(got)]:
         return ["stderr skip reports %s are not a prefix of the model's skip events %s" % (got[:6], mine[:6])]
     if rec["rc"] == 0 and got != mine:
@@ -547,46 +869,203 @@ def compare_skips(rec, plan_line):
     return []
 
 
-def compare_state(rec, mline):
+def compare_state(rec, m):
     """final content of R against the model's final state"""
-    if not mline.startswith(("ok", "err:")) or mline.startswith("err:duplicate"):
+    if "special" in m or not m["est"] or rec["root"] is None:
         return []
-    status, mtr, mstate = split_model_exec(mline)
     bad = []
     impl = rec["state"]
+    rootb = os.fsencode(rec["root"])
+    if key_of(rootb) != m["cwd"]:
+        return ["the unpack root resolves to %s, the model's working directory is %s" % (key_of(rootb), m["cwd"])]
+    runner = NOBODY if rec["priv"] == "nobody" else 0
+    ok_run = rec["rc"] == 0 and m["exit"] == 0
     seen = set()
-    for ktok, ntok in mstate.items():
-        comps = [unhx(c) for c in ktok.split("/")[2:]]         # drop "" and "52"
-        rel = b"/".join(comps)
+    initial = {e.split(":")[0] for e in rec["fsents"]}
+    touched = set()
+    for t, r in m["tr"]:
+        if r == "0" and not t.startswith("mkdir:"):
+            f = t.split(":")
+            pth = unhx(f[2] if f[0] == "symlink" else f[1])
+            touched.add(m["cwd"] + "".join("/" + hx(c) for c in pth.split(b"/")))
+    for ktok, ntok in m["state"].items():
+        if not ktok.startswith(m["cwd"] + "/"):
+            continue
+        comps = [unhx(c) for c in ktok[len(m["cwd"]) + 1:].split("/")]
         if b"" in comps or not comps:
             continue
-        seen.add(rel)
-        got = impl.get(rel)
+        path = rootb + b"/" + b"/".join(comps)
+        seen.add(path)
+        got = impl.get(path)
         if ntok == "-":
             if got is not None:
-                bad.append("R/%r exists but not in the model" % rel)
+                bad.append("%r exists but not in the model" % path[len(rootb):])
             continue
         if got is None:
-            bad.append("R/%r missing (model: %s)" % (rel, ntok[:40])); continue
+            bad.append("%r missing (model: %s)" % (path[len(rootb):], ntok[:40])); continue
         kind = ntok[0]
         head, *at = ntok.split(":")
         perm, uid, gid, mtime, nx = [int(x) for x in at]
-        if kind == "d" and not stat.S_ISDIR(got["mode"]) or kind == "f" and not stat.S_ISREG(got["mode"]) or kind == "l" and not stat.S_ISLNK(got["mode"]):
-            bad.append("R/%r has type %o, model %s" % (rel, stat.S_IFMT(got["mode"]), kind)); continue
+        tmode = {"d": stat.S_ISDIR, "f": stat.S_ISREG, "l": stat.S_ISLNK}.get(kind)
+        if kind == "s":
+            sk = head.split("=")[1]
+            tmode = {"b": stat.S_ISBLK, "c": stat.S_ISCHR, "p": stat.S_ISFIFO, "s": stat.S_ISSOCK}[sk]
+        if not tmode(got["mode"]):
+            bad.append("%r has type %o, model %s" % (path[len(rootb):], stat.S_IFMT(got["mode"]), head[:6])); continue
+        if ktok in initial and ktok not in touched:
+            continue                       # was there before and no successful call names it: only its sort is the model's business
         if kind == "f" and got.get("content") != unhx(head[2:]):
-            bad.append("R/%r content differs from the model's" % rel)
+            bad.append("%r content differs from the model's (%d bytes, model %d)" % (path[len(rootb):], len(got.get("content", b"")), len(unhx(head[2:]))))
         if kind == "l" and got.get("target") != unhx(head[2:]).hex():
-            bad.append("R/%r link target differs" % rel)
-        if "C" in rec["flags"] and kind != "l" and status == "ok" and rec["rc"] == 0 and stat.S_IMODE(got["mode"]) != perm:
-            bad.append("R/%r mode %o, model %o" % (rel, stat.S_IMODE(got["mode"]), perm))
-        if "O" in rec["flags"] and rec["rc"] == 0 and (got["uid"], got["gid"]) != (uid, gid):
-            bad.append("R/%r owner %s, model %s" % (rel, (got["uid"], got["gid"]), (uid, gid)))
-        if "T" in rec["flags"] and rec["rc"] == 0 and kind != "d" and got["mtime_s"] != mtime:
-            bad.append("R/%r mtime %s, model %s" % (rel, got["mtime_s"], mtime))
-    for rel in impl:
-        if rel not in seen:
-            bad.append("R/%r exists but the model's plan never names it" % rel)
+            bad.append("%r link target differs" % path[len(rootb):])
+        if kind == "s" and head.split("=")[1] in "bc":
+            dev = int(head.split("=")[2])
+            if got.get("rdev") != os.makedev((dev >> 8) & 0xfff, (dev & 0xff) | ((dev >> 12) & 0xfff00)):
+                bad.append("%r device number differs" % path[len(rootb):])
+        if "C" in rec["flags"] and kind != "l" and ok_run and stat.S_IMODE(got["mode"]) != perm:
+            bad.append("%r mode %o, model %o" % (path[len(rootb):], stat.S_IMODE(got["mode"]), perm))
+        if "O" in rec["flags"] and ok_run:
+            # the model's objects are born with owner 0:0; the kernel's with the runner's
+            want = (runner if uid == 0 and runner else uid, runner if gid == 0 and runner else gid)
+            if (got["uid"], got["gid"]) != want:
+                bad.append("%r owner %s, model %s" % (path[len(rootb):], (got["uid"], got["gid"]), want))
+        if "T" in rec["flags"] and ok_run and kind != "d" and got["mtime_s"] != mtime:
+            bad.append("%r mtime %s, model %s" % (path[len(rootb):], got["mtime_s"], mtime))
+    for path in impl:
+        if path not in seen:
+            bad.append("%r exists below R but neither the model's plan nor the initial state names it" % path[len(rootb):])
     return bad[:6]
+
+
+def sane(name):
+    return name not in (b".", b"..") and b"/" not in name
+
+
+def spec_complete(rec):
+    """The second half of the property, evaluated on the implementation without the model: "skipped entries are reported
+    and the rest of the image is still unpacked or the tool fails".  For a run that ended with status 0 into a fresh R:
+    every entry not hidden below a refused name exists with its type, content, link target (and, as root with -X, its
+    xattrs); every refused entry directly below a visited directory is named on stderr."""
+    if rec["rc"] != 0 or rec["root"] is None or rec["rstate"] not in ("absent", "empty") or rec["upath"] not in ("2f", ""):
+        return []
+    if any(c in rec["flags"] for c in "DSFLE"):
+        return []
+    t = node_from_tokens(rec["tokens"])
+    if t.kind != "d":
+        return []
+    rootb, bad, skipped = os.fsencode(rec["root"]), [], []
+    st = rec["state"]
+    KT = {"d": stat.S_ISDIR, "f": stat.S_ISREG, "l": stat.S_ISLNK, "b": stat.S_ISBLK, "c": stat.S_ISCHR, "p": stat.S_ISFIFO, "s": stat.S_ISSOCK}
+
+    def walk(n, path):
+        for c in n.children:
+            nm = cstr(c.name)
+            if not sane(nm):
+                skipped.append(nm.hex())
+                continue
+            p = path + b"/" + nm
+            got = st.get(p)
+            if got is None:
+                bad.append("exit status 0 but %r of the image is not in R" % p[len(rootb):]); continue
+            if not KT[c.kind](got["mode"]):
+                bad.append("exit status 0 but %r is not a %s" % (p[len(rootb):], c.kind)); continue
+            if c.kind == "f" and got.get("content") != c.payload:
+                bad.append("exit status 0 but %r has %d bytes of content, the image %d" % (p[len(rootb):], len(got.get("content", b"")), len(c.payload)))
+            if c.kind == "l" and got.get("target") != cstr(c.payload).hex():
+                bad.append("exit status 0 but the target of %r differs" % p[len(rootb):])
+            if "X" in rec["flags"] and rec["xattr_table"] and rec["priv"] == "root" and got["xattrs"] != "?":
+                want = {}
+                for k, v in c.xattrs:
+                    want[os.fsdecode(cstr(k))] = v.hex()
+                have = dict(got["xattrs"])
+                for k, v in want.items():
+                    if have.get(k) != v:
+                        bad.append("exit status 0 but xattr %r of %r is not set" % (k, p[len(rootb):]))
+            if c.kind == "d":
+                walk(c, p)
+    walk(t, rootb)
+    for nm in skipped:
+        if nm not in rec["skips"]:
+            bad.append("entry %r was refused but not reported" % bytes.fromhex(nm))
+    return bad[:6]
+
+
+# ---------------------------------------------------------------------------------------------- unprivileged runs
+def nobody_can(st, need):
+    bits = (st.st_mode >> 6) if st.st_uid == NOBODY else (st.st_mode >> 3) if st.st_gid == NOBODY else st.st_mode
+    return (bits & need) == need
+
+
+def lookup_perm(cwd, path, creating):
+    """EACCES if uid 65534 may not search a directory on the way, or (creating) not write the parent of a name that does not
+    exist; None: permissions do not decide.  The kernel does the walk (stat as root), this only reads mode bits."""
+    cur = cwd if not path.startswith(b"/") else b"/"
+    comps = [c for c in path.split(b"/") if c]
+    for i, c in enumerate(comps):
+        try:
+            st = os.stat(cur)
+        except OSError:
+            return None
+        if not stat.S_ISDIR(st.st_mode):
+            return None
+        if not nobody_can(st, 1):
+            return "EACCES"
+        last = i == len(comps) - 1
+        nxt = os.path.join(cur, c)
+        if last and creating and not os.path.lexists(nxt) and not nobody_can(st, 3):
+            return "EACCES"
+        cur = nxt
+    return None
+
+
+def nobody_predict(rec, m, where, tok, res):
+    """errno the kernel answers to uid 65534 where the model (which has no permissions) says something else"""
+    f = tok.split(":")
+    if where == "pre":
+        return rec["perm"].get("mkdir:" + f[1])
+    if where == "chdir":
+        return rec["perm"].get("chdir")
+    if res != "0":
+        return None                       # the path lookup fails first, as for root
+    if f[0] == "mknod" and f[2] in "bc" and not (f[2] == "c" and f[4] == "0"):
+        return "EPERM"                    # CAP_MKNOD; the whiteout device (char 0:0) is free for everybody
+    if f[0] == "setxattr" and unhx(f[2]).startswith((b"trusted.", b"security.")):
+        return "EPERM"
+    if f[0] == "chown":
+        u, g = int(f[2]), int(f[3])
+        if u not in (NOBODY, 0xFFFFFFFF) or g not in (NOBODY, 0xFFFFFFFF):
+            return "EPERM"
+    if f[0] == "opent":
+        # open(O_RDWR) of the file create_node made with mode (perm | 0200) under -C
+        for t, r in m["tr"]:
+            g = t.split(":")
+            if g[0] == "openx" and g[1] == f[1] and r == "0":
+                return None if (int(g[2]) & 0o600) == 0o600 else "EACCES"
+    return None
+
+
+# ---------------------------------------------------------------------------------------------- monitor on real calls
+def monitor_request(rec, m):
+    """the model's POSIX semantics (and its confinement verdict) applied to the calls the tool really made once it stands
+    in the unpack root; → (request, kernel results) or (None, reason)"""
+    if rec["root"] is None:
+        return None, "no root"
+    pre, chd, post = split_calls(rec)
+    if rec["rstr_real"] is not None and (chd is None or chd[1] != "0"):
+        return None, "root not entered"
+    if not post:
+        return None, "no calls"
+    scs, res = [], []
+    for tok, r in post:
+        if tok.startswith(("open?", "other", "truncated", "unparsed", "chdir")) or "~" in tok:
+            return None, "unparsable call"
+        t = tok + ":-" if tok.startswith("opent:") else tok
+        if rec["priv"] == "nobody" and r in ("EPERM", "EACCES") and "special" not in m and nobody_predict(rec, m, "tr", tok, "0") == r:
+            t += "!" + r                       # refused to uid 65534 for a reason the model has no notion of
+        scs.append(t)
+        res.append(r)
+    ents = list(rec["fsents"]) + [key_of(os.fsencode(p)) + ":d" for p in rec["new_dirs"]]
+    return "monitor %s %d %s %s" % (key_of(os.fsencode(rec["root"])), len(ents), " ".join(ents), " ".join(scs)), res
 
 
 # ---------------------------------------------------------------------------------------------- POSIX model probe
@@ -603,27 +1082,21 @@ def posix_probe(ctx, n):
         (base / "j" / "dd").mkdir()
         (base / "j" / "ff").write_bytes(b"ff\n")
         os.symlink("dd", base / "j" / "ll")
-        absR = [os.fsencode(c) for c in str(R).split("/")[1:]]
-        ents = []
-        p = []
-        ents.append("/:d")
-        for c in absR:
-            p.append(c)
-            ents.append("/" + "/".join(x.hex() for x in p) + ":d")
-        jp = "/" + "/".join(x.hex() for x in absR[:-1])
-        ents += [jp + "/" + b"dd".hex() + ":d", jp + "/" + b"ff".hex() + ":f", jp + "/" + b"ll".hex() + ":l:" + b"dd".hex()]
+        ents = fs_entries(top)
+        Rb = os.fsencode(R)
+        jd = os.fsencode(str(base / "j"))
         names = [b"a", b"b", b"a/b", b"a/c", b"../dd/n", b"../ll/n", b"../ff", b"../ff/x", b"s", b"s/x", b"t", b"t/y", b"../zz", b"a/../b", b"./a", b"s/../../dd/m",
-                 os.fsencode(str(base / "j" / "dd")) + b"/abs", b"u", b"a//b", b""]
+                 jd + b"/dd/abs", b"u", b"a//b", b""]
         # no "." target: a followed utimens on R itself changes only R's mtime, which the snapshot cannot tell from entry creation
-        targets = [b"../dd", b"../ff", b"a", b"b", b"..", b"t", b"s", os.fsencode(str(base / "j" / "dd")), b"../nonexist", os.fsencode(str(base / "j" / "nonexistent_abs"))]
+        targets = [b"../dd", b"../ff", b"a", b"b", b"..", b"t", b"s", jd + b"/dd", b"../nonexist", jd + b"/nonexistent_abs"]
+        xkeys = [b"user.c06", b"trusted.c06", b"security.c06", b"user.", b"trusted."]
         scs, res = [], []
-        before = snapshot(top, R, parent_mtime=True)
-        R_before = lstat_rec(R)[0]
+        before = snapshot(top, Rb)
         cwd = os.getcwd()
         os.chdir(R)
         try:
             for _ in range(rng.randint(3, 14)):
-                op = rng.choice(["mkdir", "symlink", "openx", "opent", "chmod", "chown0", "chown1", "utimens0", "utimens1", "mknod"])
+                op = rng.choice(["mkdir", "symlink", "openx", "opent", "chmod", "chown0", "chown1", "utimens0", "utimens1", "mknod", "setxattr0", "setxattr1"])
                 nm = rng.choice(names)
                 try:
                     if op == "mkdir":
@@ -640,6 +1113,9 @@ def posix_probe(ctx, n):
                         nf = op[-1]; tok = "chown:%s:1:1:%s" % (hx(nm), nf); os.chown(nm, 1, 1, follow_symlinks=(nf == "0"))
                     elif op in ("utimens0", "utimens1"):
                         nf = op[-1]; tok = "utimens:%s:5:%s" % (hx(nm), nf); os.utime(nm, (5, 5), follow_symlinks=(nf == "0"))
+                    elif op in ("setxattr0", "setxattr1"):
+                        nf = op[-1]; k = rng.choice(xkeys); tok = "setxattr:%s:%s:76:%s" % (hx(nm), hx(k), nf)
+                        os.setxattr(nm, k, b"v", follow_symlinks=(nf == "0"))
                     else:
                         tok = "mknod:%s:p:448:0" % hx(nm); os.mknod(nm, stat.S_IFIFO | 0o700)
                     r = "0"
@@ -648,50 +1124,98 @@ def posix_probe(ctx, n):
                 scs.append(tok); res.append(r)
         finally:
             os.chdir(cwd)
-        escaped = bool(diff_snap(before, snapshot(top, R, parent_mtime=True))) or lstat_rec(R)[0] != R_before
-        lines.append("monitor /%s %d %s %s" % ("/".join(x.hex() for x in absR), len(ents), " ".join(ents), " ".join(scs)))
+        escaped = bool(diff_snap(before, snapshot(top, Rb), Rb, [], 0))
+        lines.append("monitor %s %d %s %s" % (key_of(Rb), len(ents), " ".join(ents), " ".join(scs)))
         reals.append((scs, res, escaped))
         shutil.rmtree(top, ignore_errors=True)
-    out = ctx.driver(["c06"], "\n".join(lines) + "\n")
-    bad, nesc, ncalls, nfollow = [], 0, 0, 0
+    out = drive(ctx, lines, "probe monitor")
+    bad, nesc, ncalls = [], 0, 0
     for (scs, res, escaped), ml, ln in zip(reals, out, lines):
         w = ml.split()
         mres = [x.split("@")[0] for x in w[1:]]
+        if len(mres) != len(scs):
+            raise Infra("probe monitor answered %d results to %d calls" % (len(mres), len(scs)))
         ncalls += len(scs)
         nesc += escaped
-        # mknod/utimens on exotic cases: compare results literally
         if mres != res or (w[0] == "escaped") != escaped:
             bad.append({"script": scs, "kernel": res, "model": mres, "kernel_escaped": escaped, "model_verdict": w[0], "request": ln})
+    if n and not ncalls:
+        raise Infra("the POSIX probe evaluated no call")
     return bad, {"scripts": n, "calls": ncalls, "scripts_escaping_R_in_kernel_and_model": nesc}
 
 
 # ---------------------------------------------------------------------------------------------- driver
-def build_cases(ctx):
+# (state of R, spelling of -p, start directory): every way R can be there, not be there, or fail to be created / entered
+ROOT_SHAPES = [
+    ("absent", b"R", "jail"), ("empty", b"R", "jail"), ("file", b"R", "jail"), ("dangling", b"R", "jail"), ("link_dir", b"R", "jail"),
+    ("link_file", b"R", "jail"), ("loop", b"R", "jail"), ("populated", b"R", "jail"),
+    ("absent", b"R/", "jail"), ("absent", b"./R", "jail"), ("absent", b"R/sub/deep", "jail"), ("empty", b"R/sub/deep", "jail"),
+    ("file", b"R/sub/deep", "jail"), ("link_dir", b"R/sub", "jail"), ("dangling", b"R/sub", "jail"), ("absent", b"//ABS/R", "jail"),
+    ("empty", b"ABS/R", "start"), ("absent", b"R//x", "jail"), ("empty", b"", "jail"), ("absent", b"blocker/R", "jail"),
+    ("absent", b"dangling/R", "jail"), ("absent", b"loop/R", "jail"), ("absent", b"x", "jail"), ("absent", b"decoy_link/newR", "jail"),
+    ("absent", b"../jail/R", "jail"), ("absent", b"ro/R", "jail"), ("absent", b"noexec/R", "jail"), ("absent", b"ro", "jail"),
+    ("absent", b"../R", "start"), ("file", b"../R", "start"), ("absent", b"../blocker/R", "start"), ("absent", b"ABS/blocker/R", "start"),
+    ("dangling", b"../R", "start"), ("absent", b"../dangling/R/deeper", "start"), ("link_file", b"../R", "start"),
+    ("empty", None, "jail"), ("populated", None, "jail"), ("absent", b"R/../R2", "jail"),
+]
+NOBODY_SHAPES = [("absent", b"R", "jail"), ("empty", b"R", "jail"), ("absent", b"R/sub/deep", "jail"), ("absent", b"ro/R", "jail"),
+                 ("absent", b"noexec/R", "jail"), ("absent", b"noexec", "jail"), ("absent", b"blocker/R", "jail"), ("file", b"R", "jail"),
+                 ("empty", None, "jail"), ("absent", b"../R", "start"), ("absent", b"../ro/R", "start"), ("populated", b"R", "jail")]
+
+
+def build_cases(ctx, can_nobody):
     cases = []
     cdir = vlib.CORPUS / "C06"
     if cdir.exists():
         for p in sorted(cdir.glob("*.json")):
             for c in json.loads(p.read_text()):
-                cases.append((p.stem + ":" + c.get("label", ""), node_from_tokens(c["tokens"]), c.get("flags", "-"), bytes.fromhex(c.get("upath", "2f")), c.get("precreate", True)))
-    ncorpus = len(cases)
+                rstate = c.get("rstate", "empty" if c.get("precreate", True) else "absent")
+                rstr = c.get("rstr", "52")
+                cases.append(mk_case(p.stem + ":" + c.get("label", ""), node_from_tokens(c["tokens"]), c.get("flags", "-"), bytes.fromhex(c.get("upath", "2f")),
+                                     rstate, None if rstr is None else bytes.fromhex(rstr), c.get("start", "jail"),
+                                     c.get("priv", "root") if can_nobody else "root"))
+    n = {"corpus": len(cases)}
     rng = ctx.rng
-    builtin = corpus_builtin()
-    for label, t in builtin:
-        fls = ALLFLAGS
-        for fl in fls:
-            cases.append(("builtin:" + label, t, fl, b"/", rng.random() < 0.5))
-    nbuiltin = len(cases) - ncorpus
+    for label, t in corpus_builtin():
+        for fl in ALLFLAGS:
+            cases.append(mk_case("builtin:" + label, t, fl, b"/", "empty" if rng.random() < 0.5 else "absent"))
+    n["builtin"] = len(cases) - n["corpus"]
+    small = small_trees()
+    # every shape of the unpack root with two option sets and two trees each
+    k0 = len(cases)
+    for rstate, rstr, start in ROOT_SHAPES:
+        for fl in ("-", "COXT"):
+            for label, t in rng.sample(small, 2):
+                cases.append(mk_case("root:%s:%s:%s" % (rstate, rstr, label), t, fl, b"/", rstate, rstr, start))
+    n["root_shapes"] = len(cases) - k0
+    k0 = len(cases)
+    for label, t in small:
+        for fl in ("-", "X", "COXT", "CT"):
+            cases.append(mk_case("small:" + label, t, fl, b"/", rng.choice(["absent", "empty"])))
+    n["small"] = len(cases) - k0
+    k0 = len(cases)
+    if can_nobody:
+        for rstate, rstr, start in NOBODY_SHAPES:
+            for fl in ("-", "COXT", rng.choice(ALLFLAGS)):
+                label, t = rng.choice(small)
+                cases.append(mk_case("nobody:%s:%s:%s" % (rstate, rstr, label), t, fl, b"/", rstate, rstr, start, "nobody"))
+        for label, t in corpus_builtin():
+            cases.append(mk_case("nobody:builtin:" + label, t, rng.choice(ALLFLAGS), b"/", rng.choice(["absent", "empty"]), priv="nobody"))
+    n["nobody_fixed"] = len(cases) - k0
     nrand = 1200 if ctx.quick() else 30000
+    k0 = len(cases)
     for i in range(nrand):
         r = rng.random()
+        dmg = 0.15 if rng.random() < 0.15 else 0.0
+        lnk = 0.3 if not dmg and rng.random() < 0.08 else 0.0
         if r < 0.35:
-            t = rnd_tree(rng, hostile=0.0, dup=0.0)                 # benign names, hostile targets
+            t = rnd_tree(rng, hostile=0.0, dup=0.0, damage=dmg, links=lnk)                 # benign names, hostile targets
         elif r < 0.7:
-            t = rnd_tree(rng, hostile=0.12, dup=0.0)
+            t = rnd_tree(rng, hostile=0.12, dup=0.0, damage=dmg, links=lnk)
         elif r < 0.85:
-            t = rnd_tree(rng, hostile=0.1, dup=0.12)
+            t = rnd_tree(rng, hostile=0.1, dup=0.12, damage=dmg)
         else:
-            t = rnd_tree(rng, hostile=0.3, dup=0.05, depth=4, fan=4)
+            t = rnd_tree(rng, hostile=0.3, dup=0.05, depth=4, fan=4, damage=dmg)
         fl = ALLFLAGS[i % 16] if rng.random() < 0.7 else rng.choice(ALLFLAGS)
         if rng.random() < 0.25:                                     # -D -S -F -L -E prune the tree before unpacking
             fl = (fl if fl != "-" else "") + "".join(c for c in "DSFLE" if rng.random() < 0.4) or "-"
@@ -700,20 +1224,241 @@ def build_cases(ctx):
             tops = [cstr(c.name) for c in t.children if cstr(c.name)] or [b"a"]
             sub = rng.choice(tops + [b"nonexistent"])
             up = rng.choice([b"/" + sub, sub, b"//" + sub + b"/", b"./" + sub, sub + b"/..", sub + b"/x", b"", b"."])
-        cases.append(("random", t, fl, up, rng.random() < 0.5))
-    return cases, ncorpus, nbuiltin, nrand
+        rstate, rstr, start = ("empty" if rng.random() < 0.5 else "absent", b"R", "jail")
+        if rng.random() < 0.12:
+            rstate, rstr, start = rng.choice(ROOT_SHAPES)
+        priv = "root"
+        if can_nobody and not lnk and rng.random() < 0.12:
+            priv = "nobody"
+            if (rstate, rstr, start) not in NOBODY_SHAPES:
+                rstate, rstr, start = rng.choice(NOBODY_SHAPES)
+        cases.append(mk_case("random", t, fl, up, rstate, rstr, start, priv))
+    n["random"] = len(cases) - k0
+    return cases, n
+
+
+def fault_cases(ctx, cases, recs, models):
+    """One injected failure per derived case: a (class, occurrence) the fault-free model run reaches, with an errno.
+    quick: a random sample; thorough: in addition every (call, errno) of the small trees with all options."""
+    rng = ctx.rng
+    out = []
+
+    def candidates(m):
+        seq = model_seq(m)
+        nopent = sum(1 for _, _, t, _ in seq if t.startswith("opent:"))
+        cnt, cands = {}, []
+        for where, idx, tok, res in seq:
+            cls = CLASS_OF[tok.split(":")[0]]
+            cnt[cls] = cnt.get(cls, 0) + 1
+            if tok.startswith("opent:") and nopent > 1:
+                continue                 # the order of the fill phase is qsort's: the k-th open there is not the model's k-th
+            j = idx if where == "pre" else idx - len(m["pre"]) - (1 if m["chdir"] != "-" else 0) if where == "tr" else 0
+            cands.append((cls, cnt[cls], where, j, idx))
+        return cands
+    pool = [i for i, (c, r, m) in enumerate(zip(cases, recs, models)) if c["priv"] == "root" and c["fault"] is None
+            and "special" not in m and r["rc"] in (0, 1) and not r["changed"] and len(r["tokens"]) <= 40 and model_seq(m)]
+    if not pool:
+        raise Infra("no base case for fault injection")
+    # systematically, on every run: each call of two small trees with all options x the errnos a "fall back to a laxer
+    # variant" patch would key on
+    for i in pool:
+        if cases[i]["label"] in ("small:links out", "small:all kinds") and cases[i]["flags"] == "COXT":
+            for cls, k, where, j, idx in candidates(models[i]):
+                for en in ("EEXIST", "ENOTSUP", "ENOSYS", "EPERM", "EACCES"):
+                    c = dict(cases[i]); c["fault"] = (cls, k, en); c["label"] = "fault-sys:" + c["label"]; c["inject"] = (where, j); c["inject_idx"] = idx
+                    out.append(c)
+    if not out:
+        raise Infra("the systematic fault stream is empty")
+    want = 160 if ctx.quick() else 1500
+    pref = [i for i in pool if cases[i]["label"].startswith(("small:", "root:", "builtin:symlinks anywhere", "builtin:devices"))]
+    for _ in range(want):
+        i = rng.choice(pref if pref and rng.random() < 0.7 else pool)
+        cands = candidates(models[i])
+        if not cands:
+            continue
+        classes = sorted({c[0] for c in cands})
+        cls = rng.choice(classes)                                    # every class equally often, whatever its share of the calls
+        cls, k, where, j, idx = rng.choice([c for c in cands if c[0] == cls])
+        en = rng.choice(FAULT_ERRNOS)
+        c = dict(cases[i]); c["fault"] = (cls, k, en); c["label"] = "fault:" + c["label"]; c["inject"] = (where, j); c["inject_idx"] = idx
+        out.append(c)
+    if not ctx.quick():
+        for i in pool:
+            if cases[i]["label"].startswith("small:") and cases[i]["flags"] == "COXT":
+                for cls, k, where, j, idx in candidates(models[i]):
+                    for en in FAULT_ERRNOS:
+                        c = dict(cases[i]); c["fault"] = (cls, k, en); c["label"] = "fault-all:" + c["label"]; c["inject"] = (where, j); c["inject_idx"] = idx
+                        out.append(c)
+    return out
 
 
 def build_rd(ctx):
     # fill_files.c calls qsort(NULL, 0, …) when the image has no regular file: UBSan's nonnull-attribute check
-    # reports that (harmless in glibc, not a C06 matter; noted in docs/design/C06.md), so that one check is off
-    return ctx.build_tool("rdsquashfs", tag="c06", flags=["-fno-sanitize=nonnull-attribute"])
+    # reports that (harmless in glibc, not a C06 matter; noted in docs/design/C06.md), so that one check is off.
+    # The fault-injection wrappers (harness/h_c06_fault.c) are linked in; without C06_FAULT they are the identity.
+    shim = ctx.scratch / "h_c06_fault.o"
+    if not shim.exists():
+        r = vlib.sh(["gcc", "-O1", "-g", "-w", "-c", str(vlib.HARNESS / "h_c06_fault.c"), "-o", str(shim)])
+        if r.returncode != 0:
+            raise vlib.CheckFailure("compile of harness/h_c06_fault.c failed:\n" + r.stderr[-2000:])
+    return ctx.build_tool("rdsquashfs", tag="c06", flags=["-fno-sanitize=nonnull-attribute"], extra_objs=[str(shim)],
+                          ldflags=["-Wl,--wrap=" + x for x in WRAPPED])
+
+
+def probe_nobody(ctx):
+    """can this sandbox run a traced process as uid 65534?"""
+    d = ctx.scratch / "nobody_probe"
+    d.mkdir()
+    os.chown(d, NOBODY, NOBODY)
+    try:
+        r = subprocess.run(["setpriv", "--reuid=%d" % NOBODY, "--regid=%d" % NOBODY, "--clear-groups", "strace", "-f", "-o", str(d / "log"),
+                            "-e", "trace=mkdir", "mkdir", str(d / "x")], stdout=subprocess.PIPE, stderr=subprocess.PIPE, timeout=120)
+        ok = r.returncode == 0 and os.stat(d / "x").st_uid == NOBODY and "mkdir(" in (d / "log").read_text()
+    except (OSError, subprocess.SubprocessError):
+        ok = False
+    shutil.rmtree(d, ignore_errors=True)
+    return ok
 
 
 def replay_dict(rec, why):
-    return {"why": why, "label": rec["label"], "flags": rec["flags"], "upath": rec["upath"], "precreate": rec["precreate"],
+    return {"why": why, "label": rec["label"], "flags": rec["flags"], "upath": rec["upath"], "rstate": rec["rstate"], "rstr": rec["rstr"],
+            "start": rec["start"], "priv": rec["priv"], "fault": rec["fault"],
             "tokens": rec["template"], "rc": rec["rc"], "stderr": rec["stderr"][-600:], "calls": rec["calls"][-40:], "changed_outside_R": rec["changed"][:10],
-            "cmd": "rdsquashfs -q -u <upath> -p R <flags> img (image forged by tools/sqfs_forge.py from `tokens`), cwd = jail"}
+            "cmd": "[setpriv 65534] rdsquashfs -q -u <upath> [-p <rstr>] <flags> img (image forged by tools/sqfs_forge.py from `tokens`), "
+                   "cwd = jail | jail/start | jail/R (no -p); jail as tools/checks/c06.py make_jail(rstate); fault = C06_FAULT class:k:errno"}
+
+
+def run_all(ctx, rd, cases, first_idx=0):
+    recs = []
+    with concurrent.futures.ThreadPoolExecutor(max_workers=WORKERS) as ex:
+        futs = [ex.submit(run_case, ctx, rd, first_idx + i, c) for i, c in enumerate(cases)]
+        for f in futs:
+            recs.append(f.result())
+    # a timeout under load is not a finding: re-run such cases alone with a much longer limit
+    for i, r in enumerate(recs):
+        if r["rc"] == "timeout":
+            ctx.log("case %d timed out under load; re-running it in isolation" % (first_idx + i))
+            recs[i] = run_case(ctx, rd, first_idx + i, cases[i], timeout=6 * CASE_TIMEOUT)
+    for r in recs:
+        if r["rc"] != "timeout" and r["strace_lines"] == 0:
+            raise Infra("strace logged nothing for case %d (%s): %s" % (r["idx"], r["label"], r["stderr"][-300:]))
+    return recs
+
+
+def model_pass(ctx, cases, recs):
+    """→ (models, plans): `unpackMain` for every run; for unprivileged runs with the kernel's refusal as environment fault,
+    for fault cases with the injected one"""
+    reqs = []
+    for c, r in zip(cases, recs):
+        faults = [(c["inject_idx"], c["fault"][2])] if c["fault"] is not None else []
+        reqs.append(main_request(r, faults))
+    models = [parse_main(l) for l in drive(ctx, reqs, "main")]
+    redo = []
+    for i, (c, r, m) in enumerate(zip(cases, recs, models)):
+        if c["priv"] != "nobody" or "special" in m:
+            continue
+        for where, idx, tok, res in model_seq(m):
+            e = nobody_predict(r, m, where, tok, res)
+            if e is not None and e != res:
+                redo.append((i, idx, e))
+                break
+            if not fine(tok, res):
+                break
+    if redo:
+        again = drive(ctx, [main_request(recs[i], [(idx, e)]) for i, idx, e in redo], "main (unprivileged)")
+        for (i, idx, e), l in zip(redo, again):
+            models[i] = parse_main(l)
+            recs[i]["nobody_fault"] = [idx, e]
+    plans = drive(ctx, [plan_request(r) for r in recs], "plan")
+    for c, r in zip(cases, recs):
+        if c["fault"] is not None:
+            r["inject"] = c["inject"]
+    return models, plans
+
+
+def judge(ctx, recs, models, plans, stats):
+    """specification monitor + correspondence for each run"""
+    for rec, m, pl in zip(recs, models, plans):
+        hist = stats["hist"]
+        hist["rc"][str(rec["rc"])] = hist["rc"].get(str(rec["rc"]), 0) + 1
+        st = m.get("special") or m["status"]
+        hist["model_status"][st] = hist["model_status"].get(st, 0) + 1
+        hist["impl_calls"] += len(rec["calls"])
+        hist["skips_reported"] += len(rec["skips"])
+        hist["rstate"][rec["rstate"]] = hist["rstate"].get(rec["rstate"], 0) + 1
+        hist["priv"][rec["priv"]] = hist["priv"].get(rec["priv"], 0) + 1
+        if "special" not in m:
+            est = "established" if m["est"] else "mkdir_p failed" if m["chdir"] == "-" and m["status"] != "err:duplicate" and rec["rstr"] is not None else \
+                "chdir failed" if m["chdir"] not in ("-", "0") else "not reached"
+            hist["root"][est] = hist["root"].get(est, 0) + 1
+            if rec.get("nobody_fault"):
+                hist["nobody_refusals"][rec["nobody_fault"][1]] = hist["nobody_refusals"].get(rec["nobody_fault"][1], 0) + 1
+        if rec["fault"] is not None:
+            k = "%s:%s" % (rec["fault"][0], rec["fault"][2])
+            hist["faults"][k] = hist["faults"].get(k, 0) + 1
+        key = "%s|%s|%s|%s|%s|%s|%s" % (vlib.sha(" ".join(rec["template"]))[:16], rec["flags"], rec["upath"], rec["rstate"], rec["rstr"], rec["priv"],
+                                        "-" if rec["fault"] is None else "%s:%d:%s" % tuple(rec["fault"]))
+        if rec["skips"] or st != "ok" or any(r != "0" for _, r in rec["calls"][1:]) or rec["fault"] is not None:
+            stats["nontrivial"].add(key)
+        # 1. the specification, on the implementation: nothing outside R changed
+        if rec["changed"]:
+            stats["nviol"] += 1
+            if stats["nviol"] <= 5:
+                ctx.violation("escape:" + key, "rdsquashfs changed objects outside the unpack root: %s" % json.dumps(rec["changed"][:3])[:600],
+                              replay_dict(rec, "jail snapshot differs outside R"))
+            continue
+        if isinstance(rec["rc"], str) or rec["rc"] not in (0, 1):
+            stats["nviol"] += 1
+            if stats["nviol"] <= 5:
+                ctx.violation("crash:" + key, "rdsquashfs ended abnormally (rc=%s): %s" % (rec["rc"], rec["stderr"][-400:]), replay_dict(rec, "abnormal end"))
+            continue
+        inc = spec_complete(rec)
+        stats["complete_checked"] += rec["rc"] == 0
+        if inc:
+            stats["nviol"] += 1
+            if stats["nviol"] <= 5:
+                ctx.violation("incomplete:" + key, "rdsquashfs reported success although part of the image was not unpacked (or a refused entry not reported): " + "; ".join(inc)[:700],
+                              replay_dict(rec, inc))
+            continue
+        # 2. correspondence
+        bad = compare(rec, m) + compare_skips(rec, m, pl) + compare_state(rec, m)
+        stats["compared"] += 1
+        if bad:
+            stats["ndis"] += 1
+            if stats["ndis"] <= 5:
+                ctx.violation("corr:" + key, "model and rdsquashfs disagree (nothing outside R changed): " + "; ".join(bad)[:900],
+                              dict(replay_dict(rec, bad), model={k: v for k, v in m.items() if k != "state"}), found_input=False)
+    # 3. the model's POSIX semantics on the calls the tool really made (every run, not only on disagreement)
+    mreqs = []
+    for i, (r, m) in enumerate(zip(recs, models)):
+        q, res = monitor_request(r, m)
+        if q:
+            mreqs.append((i, q, res))
+        else:
+            stats["monitor_skipped"][res] = stats["monitor_skipped"].get(res, 0) + 1
+    mouts = drive(ctx, [q for _, q, _ in mreqs], "monitor")
+    for (i, q, res), ml in zip(mreqs, mouts):
+        w = ml.split()
+        mres = [x.split("@")[0] for x in w[1:]]
+        if len(mres) != len(res):
+            raise Infra("monitor answered %d results to %d calls" % (len(mres), len(res)))
+        stats["monitored"] += 1
+        stats["monitored_calls"] += len(res)
+        esc_model, esc_real = w[0] == "escaped", bool(recs[i]["changed"])
+        if mres == res and esc_model and not esc_real:
+            # every errno agrees, and by the model's semantics a successful call wrote an object that is not below R, but the
+            # snapshot shows no difference: the value written equals the old one (e.g. chmod to the mode it already had)
+            stats["nmon"] += 1
+            if stats["nmon"] <= 3:
+                ctx.violation("escape-by-model:" + vlib.sha(q)[:12], "a system call of the unpack run resolved, by the model's POSIX semantics, to an object outside R "
+                              "and succeeded (the jail snapshot shows no difference because the value written equals the old one): %s" % ml[:300],
+                              dict(replay_dict(recs[i], "model monitor: write outside R"), monitor=ml[:4000]))
+        elif mres != res or esc_model != esc_real:
+            stats["nmon"] += 1
+            if stats["nmon"] <= 3:
+                ctx.violation("posix-model:run:" + vlib.sha(q)[:12], "the abstract POSIX model disagrees with the kernel on the calls of an unpack run: kernel %s model %s; "
+                              "changed outside R: kernel %s, model %s" % (res[:12], mres[:12], esc_real, w[0]),
+                              dict(replay_dict(recs[i], "monitor"), request=q[:20000], kernel=res, model=ml[:4000]), found_input=False)
 
 
 def run(ctx):
@@ -725,104 +1470,72 @@ def run(ctx):
     if not wok:
         ctx.violation("proof:C06-witness", "the necessity witnesses (Sqfs/Witness/C06.lean) no longer check: the abstract file system may have lost the ability to express an escape",
                       {"log": wlog[-1500:]}, found_input=False)
+    os.chmod(ctx.scratch, 0o755)                 # uid 65534 has to reach its jail
     rd = build_rd(ctx)
-    cases, ncorpus, nbuiltin, nrand = build_cases(ctx)
-    ctx.log("cases: %d corpus, %d builtin x flags, %d random" % (ncorpus, nbuiltin, nrand))
-    recs = []
-    with concurrent.futures.ThreadPoolExecutor(max_workers=WORKERS) as ex:
-        futs = [ex.submit(run_case, ctx, rd, i, lab, t, fl, up, pre) for i, (lab, t, fl, up, pre) in enumerate(cases)]
-        for f in futs:
-            recs.append(f.result())
-    # a timeout under load is not a finding: re-run such cases alone with a much longer limit
-    for i, r in enumerate(recs):
-        if r["rc"] == "timeout":
-            lab, t, fl, up, pre = cases[i]
-            ctx.log("case %d timed out under load; re-running it in isolation" % i)
-            recs[i] = run_case(ctx, rd, i, lab, t, fl, up, pre, timeout=6 * CASE_TIMEOUT)
+    can_nobody = os.geteuid() == 0 and probe_nobody(ctx)
+    ctx.log("unprivileged runs (setpriv uid 65534 under strace): %s" % ("possible" if can_nobody else "NOT possible in this sandbox"))
+    cases, ncase = build_cases(ctx, can_nobody)
+    ctx.log("cases: " + ", ".join("%d %s" % (v, k) for k, v in ncase.items()))
+    recs = run_all(ctx, rd, cases)
     ctx.log("implementation runs done")
-    execs = ctx.driver(["c06"], "\n".join(model_request(r, "exec") for r in recs) + "\n", timeout=3000)
-    plans = ctx.driver(["c06"], "\n".join(model_request(r, "plan") for r in recs) + "\n", timeout=3000)
-    hist = {"rc": {}, "model_status": {}, "impl_calls": 0, "skips_reported": 0}
-    nontrivial, ndis, nviol = set(), 0, 0
-    for rec, ml, pl in zip(recs, execs, plans):
-        hist["rc"][str(rec["rc"])] = hist["rc"].get(str(rec["rc"]), 0) + 1
-        st = ml.split()[0] if ml else "?"
-        hist["model_status"][st] = hist["model_status"].get(st, 0) + 1
-        hist["impl_calls"] += len(rec["calls"])
-        hist["skips_reported"] += len(rec["skips"])
-        key = "%s|%s|%s" % (vlib.sha(" ".join(rec["tokens"]))[:16], rec["flags"], rec["upath"])
-        if rec["skips"] or st != "ok" or any(r != "0" for _, r in rec["calls"][1:]):
-            nontrivial.add(key)
-        # 1. the specification, on the implementation: nothing outside R changed
-        if rec["changed"]:
-            nviol += 1
-            if nviol <= 5:
-                ctx.violation("escape:" + key, "rdsquashfs changed objects outside the unpack root: %s" % json.dumps(rec["changed"][:3])[:600],
-                              replay_dict(rec, "jail snapshot differs outside R"))
-            continue
-        if isinstance(rec["rc"], str) or rec["rc"] not in (0, 1):
-            nviol += 1
-            if nviol <= 5:
-                ctx.violation("crash:" + key, "rdsquashfs ended abnormally (rc=%s): %s" % (rec["rc"], rec["stderr"][-400:]), replay_dict(rec, "abnormal end"))
-            continue
-        # 2. correspondence
-        bad = compare(rec, ml) + compare_skips(rec, pl) + compare_state(rec, ml)
-        if bad:
-            ndis += 1
-            if ndis <= 5:
-                ctx.violation("corr:" + key, "model and rdsquashfs disagree (nothing outside R changed): " + "; ".join(bad)[:900],
-                              dict(replay_dict(rec, bad), model=ml[:3000]), found_input=False)
-    # 3. the model's POSIX semantics on the calls the tool really made (every run, not only on disagreement)
-    mreqs = [(i, *monitor_request(r)) for i, r in enumerate(recs)]
-    mreqs = [(i, q, res) for i, q, res in mreqs if q]
-    mouts = ctx.driver(["c06"], "\n".join(q for _, q, _ in mreqs) + "\n", timeout=3000) if mreqs else []
-    nmon = 0
-    for (i, q, res), ml in zip(mreqs, mouts):
-        w = ml.split()
-        mres = [x.split("@")[0] for x in w[1:]]
-        esc_model, esc_real = w[0] == "escaped", bool(recs[i]["changed"])
-        if mres == res and esc_model and not esc_real:
-            # every errno agrees, and by the model's semantics a successful call wrote an object that is not below R, but the
-            # snapshot shows no difference: the value written equals the old one (e.g. chmod to the mode it already had)
-            nmon += 1
-            if nmon <= 3:
-                ctx.violation("escape-by-model:" + vlib.sha(q)[:12], "a system call of the unpack run resolved, by the model's POSIX semantics, to an object outside R "
-                              "and succeeded (the jail snapshot shows no difference because the value written equals the old one): %s" % ml[:300],
-                              dict(replay_dict(recs[i], "model monitor: write outside R"), monitor=ml[:4000]))
-        elif mres != res or esc_model != esc_real:
-            nmon += 1
-            if nmon <= 3:
-                ctx.violation("posix-model:run:" + vlib.sha(q)[:12], "the abstract POSIX model disagrees with the kernel on the calls of an unpack run: kernel %s model %s; "
-                              "changed outside R: kernel %s, model %s" % (res[:12], mres[:12], esc_real, w[0]), {"request": q[:20000], "kernel": res, "model": ml[:4000]}, found_input=False)
+    models, plans = model_pass(ctx, cases, recs)
+    stats = {"hist": {"rc": {}, "model_status": {}, "impl_calls": 0, "skips_reported": 0, "rstate": {}, "priv": {}, "root": {}, "faults": {},
+                      "nobody_refusals": {}},
+             "nontrivial": set(), "ndis": 0, "nviol": 0, "nmon": 0, "compared": 0, "complete_checked": 0, "monitored": 0, "monitored_calls": 0, "monitor_skipped": {}}
+    judge(ctx, recs, models, plans, stats)
+    # fault injection: derived from the fault-free runs
+    fcases = fault_cases(ctx, cases, recs, models)
+    ctx.log("fault-injection runs: %d" % len(fcases))
+    frecs = run_all(ctx, rd, fcases, first_idx=len(cases))
+    fmodels, fplans = model_pass(ctx, fcases, frecs)
+    nfired = sum(1 for r in frecs if r["fired"] is not None)
+    if fcases and nfired * 2 < len(fcases):
+        raise Infra("only %d of %d injected faults fired: the wrappers are not in effect" % (nfired, len(fcases)))
+    judge(ctx, frecs, fmodels, fplans, stats)
+    if not stats["compared"] or not stats["monitored"] or not stats["monitored_calls"] or not stats["complete_checked"]:
+        raise Infra("nothing was compared (%d) or monitored (%d runs, %d calls)" % (stats["compared"], stats["monitored"], stats["monitored_calls"]))
+    if not stats["hist"]["root"].get("chdir failed") or not stats["hist"]["root"].get("mkdir_p failed"):
+        raise Infra("no generated case made mkdir_p / chdir fail: %s" % stats["hist"]["root"])
     pbad, pstat = posix_probe(ctx, 400 if ctx.quick() else 8000)
     for b in pbad[:5]:
         ctx.violation("posix-model:" + vlib.sha(json.dumps(b["script"]))[:12],
                       "the abstract POSIX model and the kernel disagree on a system-call script: kernel %s model %s (verdicts: kernel escaped=%s, model %s)" % (
                           b["kernel"], b["model"], b["kernel_escaped"], b["model_verdict"]), b, found_input=False)
     samples = []
-    for i in (0, len(recs) // 3, len(recs) - 1):
-        r = recs[i]
-        samples.append({"label": r["label"], "flags": r["flags"], "upath": r["upath"], "nodes": len(r["tokens"]), "rc": r["rc"],
-                        "calls": [c for c, _ in r["calls"]][:8], "model": execs[i][:300]})
+    allrecs, allmodels = recs + frecs, models + fmodels
+    for i in (0, len(recs) // 3, len(recs) - 1, len(allrecs) - 1):
+        r = allrecs[i]
+        samples.append({"label": r["label"], "flags": r["flags"], "upath": r["upath"], "rstate": r["rstate"], "rstr": r["rstr"], "priv": r["priv"],
+                        "fault": r["fault"], "nodes": len(r["tokens"]), "rc": r["rc"], "calls": [c for c, _ in r["calls"]][:8],
+                        "model": {k: v for k, v in allmodels[i].items() if k in ("exit", "est", "status", "chdir", "special")}})
     ctx.cov.update({
-        "evaluations": len(recs) + pstat["scripts"],
-        "distinct_nontrivial": len(nontrivial),
-        "rule": "forged images (corpus %d, %d builtin attack shapes x option subsets, %d seeded random hostile trees; all 16 subsets of -C -O -X -T, 25%% also with a subset of -D -S -F -L -E; "
-                "15%% with an unpack sub-path) unpacked by the ASan+UBSan rdsquashfs of the working tree under strace in a jail with decoys; "
-                "non-trivial = distinct (tree, flags, path) where an entry was skipped, the tool failed, or a system call failed" % (ncorpus, nbuiltin, nrand),
+        "evaluations": len(allrecs) + pstat["scripts"],
+        "distinct_nontrivial": len(stats["nontrivial"]),
+        "rule": "forged images (%s; all 16 subsets of -C -O -X -T, 25%% also with a subset of -D -S -F -L -E; 15%% with an unpack sub-path; 15%% of the random "
+                "trees with damaged data blocks / xattr records, 8%% with hard links) unpacked by the ASan+UBSan rdsquashfs of the working tree under strace in a jail "
+                "with decoys and an empty sentinel start directory; R absent / empty / a file / a dangling link / a link to a directory / to a file / a loop / populated, "
+                "-p spelled %d ways or not given; unprivileged runs: %s; then %d runs with one injected system-call failure each (classes %s x errnos %s); "
+                "non-trivial = distinct (tree, flags, path, R state, -p, user, fault) where an entry was skipped, the tool failed, a system call failed or was made to fail" % (
+                    ", ".join("%d %s" % (v, k) for k, v in ncase.items()), len({s[1] for s in ROOT_SHAPES}), "yes" if can_nobody else "not possible here",
+                    len(fcases), sorted(set(CLASS_OF.values())), FAULT_ERRNOS),
         "samples": samples,
-        "disagreements_checked": ndis + nviol + len(pbad) + nmon,
-        "histogram": hist,
+        "disagreements_checked": stats["ndis"] + stats["nviol"] + len(pbad) + stats["nmon"],
+        "histogram": stats["hist"],
         "posix_model_probe": pstat,
-        "monitor_on_real_calls": {"runs": len(mreqs), "disagreements": nmon},
+        "monitor_on_real_calls": {"runs": stats["monitored"], "calls": stats["monitored_calls"], "disagreements": stats["nmon"], "not_monitored": stats["monitor_skipped"]},
+        "faults_fired": nfired,
+        "successful_runs_checked_for_completeness": stats["complete_checked"],
+        "unprivileged_runs_possible": can_nobody,
     })
     return ctx.finish(LEVEL, trusted_extra=[
         "abstract POSIX file system of Sqfs/Model/Unpack.lean (path resolution, symlink following, O_EXCL / O_CREAT|O_TRUNC / AT_SYMLINK_NOFOLLOW rules): "
         "hypothesis of the theorems, validated against the kernel by random system-call scripts on every run (posix_model_probe)",
-        "strace (system-call log), tools/sqfs_forge.py (image writer), the jail snapshot in tools/checks/c06.py",
-        "modelled: rdsquashfs.c (tree_sort, OP_UNPACK), restore_fstree.c, fill_files.c, dir_tree.c (sqfs_tree_node_get_path), read_tree.c (names as C strings, "
-        "children only below directory inodes, --unpack-path lookup); canonicalize_name / is_filename_sane via the C18 model"],
-        assumptions=["R is fresh: a directory with nothing below it that the run did not create (a pre-populated R is outside the property)",
+        "strace (system-call log), tools/sqfs_forge.py (image writer), the jail snapshot and the table of calls refused to uid 65534 in tools/checks/c06.py, "
+        "harness/h_c06_fault.c (link-time wrappers that make one call fail)",
+        "modelled: rdsquashfs.c (tree_sort, OP_UNPACK incl. mkdir_p/chdir), restore_fstree.c, fill_files.c, mkdir_p.c, dir_tree.c (sqfs_tree_node_get_path), read_tree.c "
+        "(names as C strings, children only below directory inodes, --unpack-path lookup); canonicalize_name / is_filename_sane via the C18 model"],
+        assumptions=["the directory the tool stands in after chdir(R) has no symbolic link strictly below it before the run (in particular: is fresh); "
+                     "an R that already holds symbolic links is outside the property (Witness.C06.prepopulated_symlink_escapes) and not generated",
                      "no other process modifies R during the run"])
 
 
@@ -833,15 +1546,34 @@ def replay(ctx, path):
         print("replay file names a broken obligation / model probe, no image to replay:", json.dumps(rp)[:800])
         return 1
     ctx.lean_build(["sqfsmodel"])
+    os.chmod(ctx.scratch, 0o755)
     rd = build_rd(ctx)
-    rec = run_case(ctx, rd, 0, rp.get("label", "replay"), node_from_tokens(rp["tokens"]), rp["flags"], bytes.fromhex(rp["upath"]), rp["precreate"])
-    ml = ctx.driver(["c06"], model_request(rec, "exec") + "\n")[0]
-    pl = ctx.driver(["c06"], model_request(rec, "plan") + "\n")[0]
+    rstr = rp.get("rstr", "52")
+    case = mk_case(rp.get("label", "replay"), node_from_tokens(rp["tokens"]), rp["flags"], bytes.fromhex(rp["upath"]),
+                   rp.get("rstate", "empty" if rp.get("precreate", True) else "absent"), None if rstr is None else bytes.fromhex(rstr),
+                   rp.get("start", "jail"), rp.get("priv", "root"), tuple(rp["fault"]) if rp.get("fault") else None)
+    if case["fault"] is not None:
+        base = dict(case); base["fault"] = None
+        r0 = run_case(ctx, rd, 0, base)
+        m0 = parse_main(drive(ctx, [main_request(r0)], "main")[0])
+        cnt = {}
+        for where, idx, tok, res in model_seq(m0) if "special" not in m0 else []:
+            cls = CLASS_OF[tok.split(":")[0]]
+            cnt[cls] = cnt.get(cls, 0) + 1
+            if (cls, cnt[cls]) == (case["fault"][0], case["fault"][1]):
+                j = idx if where == "pre" else idx - len(m0["pre"]) - (1 if m0["chdir"] != "-" else 0) if where == "tr" else 0
+                case["inject"], case["inject_idx"] = (where, j), idx
+        if "inject" not in case:
+            print("the fault-free model run has no such call to inject the fault into")
+            return 1
+    rec = run_case(ctx, rd, 1, case)
+    models, plans = model_pass(ctx, [case], [rec])
+    m, pl = models[0], plans[0]
     print("exit status :", rec["rc"])
     print("stderr      :", rec["stderr"][-500:])
     print("calls       :", rec["calls"][:60])
-    print("model       :", ml[:2000])
+    print("model       :", json.dumps({k: v for k, v in m.items() if k != "state"})[:2000])
     print("changed outside R:", json.dumps(rec["changed"])[:1500])
-    bad = compare(rec, ml) + compare_skips(rec, pl) + compare_state(rec, ml)
+    bad = compare(rec, m) + compare_skips(rec, m, pl) + compare_state(rec, m)
     print("disagreements:", bad)
     return 1 if rec["changed"] or bad or rec["rc"] not in (0, 1) else 0
